@@ -12,1816 +12,967 @@ Definition show_fres (r : fres) : string :=
   end.
 Definition check (rs : list rune) : string := digest (show_fres (format_res rs)).
 Definition full (rs : list rune) : string := show_fres (format_res rs).
-Eval vm_compute in ("<<<M3526>>>" ++ check (runes_of_ascii "options { LittleEndian // c2a
+Eval vm_compute in ("<<<M1454>>>" ++ check (runes_of_ascii "// top
+options
+    // c0
+{ // c1
+StringPrefixLenType // c2a
   // c2b
-=
-    // c3
-true ;
-    // c5
-StringPrefixLenType // c6
-= u64
-    // c8
-; ArrayPrefixLenType // c10
-=
-    // c11
-u8 // c12
-; FixedStringPadChar // c14
-= '0' // c16
-; // c17a
-  // c17b
-} // c18
-packet // c19
-Reject // c20
-{ // c21
-i32 // c22
-Ref ,
-    // c24
-repeat f64 // c26a
-  // c26b
-OrderId , // c28a
-  // c28b
-repeat // c29
-InNote12 // c30a
-  // c30b
-{ // c31a
-  // c31b
-u8 // c32a
-  // c32b
-pad0 ,
-    // c34
-} , // c36
-@leftPad // c37
-( // c38
-' ' // c39
-) char[ 6 // c42a
-  // c42b
-]
-    // c43
-count ,
-    // c45
-}
-    // c46
-packet // c47a
-  // c47b
-Logout // c48a
-  // c48b
-{ // c49a
-  // c49b
-zchar[
-    // c50
-6 // c51a
-  // c51b
-] // c52
-Tail , // c54
-repeat
-    // c55
-string // c56
-venue // c57
-, // c58a
-  // c58b
-} // c59a
-  // c59b
-packet Cancel
-    // c61
-{ // c62a
-  // c62b
-u64 // c63
-count
-    // c64
-, repeat // c66
-char[ // c67a
-  // c67b
-5
-    // c68
-] // c69a
-  // c69b
-lastPx
-    // c70
-, // c71
-i64 // c72a
-  // c72b
-Tail // c73a
-  // c73b
-,
-    // c74
-repeat InF140 { // c77
-repeat Logout // c79
-,
-    // c80
-repeat // c81
-Reject // c82a
-  // c82b
-, // c83
-} // c84
-,
-    // c85
-} root // c87a
-  // c87b
-packet // c88a
-  // c88b
-Trade {
-    // c90
-repeat // c91
-InMsgkind39 // c92a
-  // c92b
-{ // c93a
-  // c93b
-repeat Reject ,
-    // c96
-char[ // c97
-4 // c98a
-  // c98b
-] // c99
-Px // c100
-, } , // c103a
-  // c103b
-string // c104a
-  // c104b
-Acct // c105
-, uint16
-    // c107
-price // c108
-, // c109a
-  // c109b
-f32 OrderId
-    // c111
-, // c112a
-  // c112b
-u16 // c113a
-  // c113b
-x
-    // c114
-,
-    // c115
-u16 // c116a
-  // c116b
-clOrdID
-    // c117
-@lengthOf( Body ) // c120
-, // c121
-match // c122
-x // c123a
-  // c123b
-as // c124
-Body // c125
-{ // c126
-178
-    // c127
-: // c128a
-  // c128b
-Logout
-    // c129
-, 13 : // c132
-Cancel // c133
-, // c134a
-  // c134b
-174
-    // c135
-: // c136a
-  // c136b
-Reject
-    // c137
-, // c138
-} // c139a
-  // c139b
-, // c140a
-  // c140b
-u16
-    // c141
-Flags // c142a
-  // c142b
-@calculatedFrom( // c143
-""CRC32"" // c144a
-  // c144b
-) // c145a
-  // c145b
-,
-    // c146
-} // c147a
-  // c147b
-")).
-Eval vm_compute in ("<<<M1242>>>" ++ check (runes_of_ascii "// " ++ [128512]%N ++ runes_of_ascii " emoji
-packet f32a { falsey, } packet metadata { //	t
-@lengthOf(tag )
-u8 A @calculatedFrom(  """ ++ [28040; 24687]%N ++ runes_of_ascii """
-) `// not a comment` ,
-@calculatedFrom( """ ++ [28040; 24687]%N ++ runes_of_ascii """
-) i64 i64_ @calculatedFrom( ""abc""// packet A { u8 x, }
-)`a\` ,u8
-u128  ,
-string_ `line1
-line2` ,@calculatedFrom(// " ++ [128512]%N ++ runes_of_ascii " emoji
-""\" ++ [233]%N ++ runes_of_ascii """  ) // " ++ [27880; 37322]%N ++ runes_of_ascii "
-@calculatedFrom( ""it's"" ) @calculatedFrom( // c
-""\n"") repeat pack { zchar[ 0
-    ] Foo
-    @lengthOf(
-uint8x ) , float32 x , } , repeat roots`a\` ,f64 Header @calculatedFrom(
-""// no comment"" ) , zchar[42 ] zchar	, options1 o// " ++ [27880; 37322]%N ++ runes_of_ascii "
-`" ++ [28040; 24687; 31867; 22411]%N ++ runes_of_ascii "`
-, repeat
-    zchar[ 7 ] len
-, // " ++ [27880; 37322]%N ++ runes_of_ascii "
-}
-packet MetaDataX{ @calculatedFrom( ""a	b"" )repeat u128 { match rootA as
-crc {007
-:
-pack
-    , 10 : u8x ,""a\\"" : falsey , [
-    //x
-    ""{,}"",
-0 , """ ++ [233]%N ++ runes_of_ascii "t" ++ [233]%N ++ runes_of_ascii """ , 42
-    // a // b
-    ,
-255
-, ""\n"", 10 , ""// no comment""// c
-] : leftPad
-, ""1"" :
-    x_y_z ,
-7
-    :	Z9_ ,} // " ++ [27880; 37322]%N ++ runes_of_ascii "
-, } ,
-msg_type { repeat char[]  Pad ,/// triple
-uint16 body
-, }
-,
-    // `tick` ""quote"" 'q'
-    uint16 u@lengthOf(leftPad)
-    ,	@tag( 255 //
-) repeat u128
-{ repeat string_, repeatCount pack , repeat	stringy
-{
-    zchar[ 10 ] crc
-    `doc`, i16
-leftPad @calculatedFrom( ""it's"" ) `
-`
-    ,
-    tag { repeat
-char[] repeatCount `u8 x,`
-//	t
-// trailing space 
-, match	stringy
-as Foo	{
-1 : asx, }
-,match i64_ as Packet
-{ ""a\""b"" :  Pad,
-    ""a\\"": o ,
-    [0, 0123456789 ,7 , 1 , //x
-1, 7 ]
-// @lengthOf(
-//x
-: matchKey
-, },  } ,
-} , i64 body
-@lengthOf( metadata)  `u8 x,`  , } ,
-string crc `two words` , @lengthOf(
-charz )@calculatedFrom(""" ++ [233]%N ++ runes_of_ascii "t" ++ [233]%N ++ runes_of_ascii """ )
-match
-    string_ as
-stringy{ // @lengthOf(
-[	0  ] :
-pack // c
-,""CRC32"": crc , 1
-: int ,
-}//
-, repeat // `tick` ""quote"" 'q'
-u8
-matchKey `` ,repeat int8 // a // b
-matchKey , Header // `tick` ""quote"" 'q'
-crc , } // `tick` ""quote"" 'q'")).
-Eval vm_compute in ("<<<M940>>>" ++ check (runes_of_ascii "  options {
-    uint8x = u64 ; crc =	'0'
-// @lengthOf(
-// " ++ [128512]%N ++ runes_of_ascii " emoji
-MetaDataX= '0' ;
-    len
-    ='0' } MetaData
-matchKey
-{/// triple
-}
-packet
-// " ++ [128512]%N ++ runes_of_ascii " emoji
-/// triple
-i64_{ BodyLength
-    `tab	here`, @tag(
-00 )
-repeat string_ ,
-    @calculatedFrom( """ ++ [28040; 24687]%N ++ runes_of_ascii """ ) @leftPad ( '0' ) crc @calculatedFrom(
-    """ ++ [233]%N ++ runes_of_ascii "t" ++ [233]%N ++ runes_of_ascii """
-    ) , @tag(
-    1	)  zchar[ 007 ] packetx
-`
-`,
-@leftPad (
-'0' ) x @calculatedFrom( ""packet""
-    )
-// `tick` ""quote"" 'q'
-// a // b
-,
-@lengthOf( A ) /// triple
-@calculatedFrom(  ""{,}"" //x
-)@rightPad (
-'0'  ) string Header `say ""hi""`
-// a // b
-// c
-, @lengthOf(	u8x
-)
-x Header `doc`
-// packet A { u8 x, }
-//x
-,}
-    packet uint8x{ @leftPad (
-'\x00')
-    @lengthOf( //	t
-leftPad	)
-    BodyLength u , }	root packet A { @rightPad ( '\x00' )
-    @lengthOf(
-    leftPad  ) char[ 4294967296 ] A @calculatedFrom( ""// no comment"" ),
-    @tag(
-42	)
-@calculatedFrom( ""packet"")	@calculatedFrom( """ ++ [128512]%N ++ runes_of_ascii """ ) repeat
-Z9_ `" ++ [28040; 24687; 31867; 22411]%N ++ runes_of_ascii "` ,
-rootA crc // " ++ [27880; 37322]%N ++ runes_of_ascii "
-,
-    Header ,  char[
-    4294967296	]
-charz`{ , }` , @calculatedFrom( ""\n"" ) @calculatedFrom(
-    ""it's"" ) u64//
-stringy
-    `" ++ [233]%N ++ runes_of_ascii "` , repeat options1 {
-    body
-    { lengthOf @calculatedFrom(
-    //x
-    ""a\\""
-)
-, options1{ repeat chars leftPad `two words` ,
-// " ++ [27880; 37322]%N ++ runes_of_ascii "
-// " ++ [27880; 37322]%N ++ runes_of_ascii "
-} , } ,repeat// " ++ [27880; 37322]%N ++ runes_of_ascii "
-char[] _x , zchar[ 3] options1
-    //x
-    ,
-} ,@lengthOf( packetx ) @leftPad
-    ( ' '
-    )
-    @lengthOf( rootA )float  Packet , @tag( 7 )
-repeat
-// " ++ [27880; 37322]%N ++ runes_of_ascii "
-// trailing space 
-u8	matchKey,}
-//	t
-")).
-Eval vm_compute in ("<<<M3620>>>" ++ check (runes_of_ascii "MetaData body {
-asx stringy
-, f64
-        // " ++ [27880; 37322]%N ++ runes_of_ascii "
-    	// c
-      As
-
-    ``
-
-,
-
-Foo Logon
-`a\` 
-// " ++ [27880; 37322]%N ++ runes_of_ascii "
-, packetx
-	asx
-    `" ++ [28040; 24687; 31867; 22411]%N ++ runes_of_ascii "`
-,  u32
-    matchKey `line1
-line2`,u16	chars	,
-}	root
-packet
-    _x  //	t
-		{ 
-match
-	rootA  as
-	repeatCount{ 
-      /// triple
-
-  //x
-	007
-
-:msg_type /// triple
-	[	4294967296 , ""// no comment""	]:  leftPad,
-"""":packetx
-,
-
-    0123456789
-:
-    Logon 
-, 10
-:
-	a1
-
-,
-[
-""abc""
-
-    ,7  // packet A { u8 x, }
-		, ""CRC32"",
-0123456789
-
-    ,
-
-255  ,
-
-    ""a\""b""
-    , 
-""" ++ [128512]%N ++ runes_of_ascii """
-
-    ] :len  ,}
-    ,
-    repeat 
-string
-trueish , @rightPad(
-
-    ) int64
-f32a
-@lengthOf(tag
-) 
-, 
-
-// a // b
-// @lengthOf(
-    zchar[
-	42
-
-    ] 
-lengthOf
-	@lengthOf(  tag
-)  `{ , }` ,
-@tag(
-
-10) int32
-    //
-//	t
-leftPad
-
-    `doc`
-, x_y_z
-chars ,  @calculatedFrom(
-	""// no comment""
-	) @lengthOf(
-	_x )
-    @lengthOf(
-	matchKey
-    ) repeat
-	zchar 
-zchar	,
-@calculatedFrom(	/// triple
-""a	b""	)  repeat
-	Pad	i8i8
-,@tag(
-	1
-    // c
-  )
-
-    repeat  int16 
-metadata	,	} options	{
-    T
-=
-""`tick`""
-    // packet A { u8 x, }
-    ; 
-crc = 
-'\x00'; 	 // packet A { u8 x, }
-  o
-	= ' '
-
-    ;
-
-    } packet 
-matchKey// trailing space 
-  {  zchar[  0123456789
-
-    ] crc	, @lengthOf(packetx)char[]	//	t
-    	uint8x
-
-`say ""hi""` , repeat
-    As  A ,}  
-  // c")).
-Eval vm_compute in ("<<<M873>>>" ++ check (runes_of_ascii "packet i8i8  {
-@lengthOf( body )
-// trailing space 
-// " ++ [128512]%N ++ runes_of_ascii " emoji
-@lengthOf(  T
-    )calculatedFrom @calculatedFrom( """" ) , uint32 x`crlf
-line`
-    , uint64 string_ `{ , }` ,i64 _x // `tick` ""quote"" 'q'
-@calculatedFrom(""a	b""
-    )
-`doc` , @lengthOf( len )
-asx `doc`,charz `two words`,
-}  packet	u { @rightPad (	) repeat u128 u8x
-    , // trailing space 
-float64 stringy @calculatedFrom(
-    """ ++ [128512]%N ++ runes_of_ascii """)`crlf
-line` ,
-@rightPad( ) @tag(10 ) repeat
-    options1 `crlf
-line`, zchar[ 0 ] i8i8 , int16 // " ++ [128512]%N ++ runes_of_ascii " emoji
-matchKey@calculatedFrom(""CRC32"" )
-,}packet string_	{ zchar
-    // @lengthOf(
-    @calculatedFrom( ""packet"" ), repeat
-asx chars `tab	here` , }packet falsey { body
-BodyLength`two words`
-// a // b
-// trailing space 
-,
-match Z9_	as lengthOf{
-4294967296 : roots // " ++ [27880; 37322]%N ++ runes_of_ascii "
-} , char[	3
-    // @lengthOf(
-    ]asx `crlf
-line` , }root packet float	{
-repeat  i8i8 , @lengthOf(options1 ) roots
-roots  ,
-repeat zchar[ 1 ]
-    /// triple
-    pack , i64_ , falsey`` , match options1 as
-    // @lengthOf(
-    x_y_z { 0// packet A { u8 x, }
-: int , } ,	zchar[ 007 ] A@calculatedFrom( ""a	b""	)
-, trueish {repeat char[]i8i8 `doc` , }  , i8i8 `
-`
-    //
-    , uint8 roots `two words`// c
-,} 	 ")).
-Eval vm_compute in ("<<<M1119>>>" ++ check (runes_of_ascii "packet msg_type {  char[ 10
-    ]Logon  @lengthOf(	u8x ) `` , repeat
-    i16
-    Logon `two words`
-,} MetaData matchKey  { zchar[ 0
-] tag`" ++ [28040; 24687; 31867; 22411]%N ++ runes_of_ascii "` , }
-    packet leftPad { repeat// trailing space 
-roots
-    // trailing space 
-    { match zchar	as
-T { ""{,}""
-//x
-// " ++ [27880; 37322]%N ++ runes_of_ascii "
-:
-    Z9_ , ""\n"" : tag
-""a\\"": lengthOf ,} , }
-, }root  packet a1
-{
-@tag(	3 )
-    u128`it's`
-    ,MetaDataX
-{match // `tick` ""quote"" 'q'
-metadata
-    as o  { ""`tick`""
-:roots 10 : u, ""\" ++ [233]%N ++ runes_of_ascii """ :	float , } , char[ 3 ]
-    /// triple
-    pack
-@calculatedFrom( ""`tick`""  ) , match
-pack  as asx {7
-    : rootA [
-42 , 1	,
-    ""\" ++ [233]%N ++ runes_of_ascii """ , ""a	b""  , """ ++ [28040; 24687]%N ++ runes_of_ascii """  ,00 ,10, ""a\\"" ]	:	x_y_z ,/// triple
-42 :f32a // " ++ [128512]%N ++ runes_of_ascii " emoji
-42:u // c
-, """ ++ [128512]%N ++ runes_of_ascii """ // @lengthOf(
-: A
-1 : Z9_// `tick` ""quote"" 'q'
-},} ,i64 roots , zchar[ 65535
-    ] stringy,crc @calculatedFrom( ""a\\"") , zchar[ 007]
-stringy
-    , /// triple
-string
-    Z9_ ,  @calculatedFrom( // c
-""x y"" )@lengthOf(calculatedFrom)@calculatedFrom( ""abc"") u128`it's`
-,//
-@tag(
-    // a // b
-    1 ) zchar[ 0123456789	] string_
-    , } options {//x
-metadata= '\x00' u = false
-T
-=	10 ;
-_x= ""abc"" asx = false ; } // packet A { u8 x, }")).
-Eval vm_compute in ("<<<M607>>>" ++ check (runes_of_ascii "packet
-Header
-// " ++ [27880; 37322]%N ++ runes_of_ascii "
-// a // b
-{
-    msg_type@lengthOf( leftPad// @lengthOf(
-) , @calculatedFrom( ""x y""
-) int16 A @calculatedFrom( """ ++ [233]%N ++ runes_of_ascii "t" ++ [233]%N ++ runes_of_ascii """ ) , @calculatedFrom( ""packet"") metadata@lengthOf( leftPad
-    )
-,
-match len  as pack {	7/// triple
-:a1
-    , 10: uint8x
-    ,""`tick`""// `tick` ""quote"" 'q'
-: // c
-options1 00
-: repeatCount , } ,
-@rightPad ( '\x00')//	t
-@tag(	10 ) @tag(
-7 // @lengthOf(
-)repeat char[ 42 ]	As`two words` , @tag( 65535 )
-    zchar
-// a // b
-// " ++ [27880; 37322]%N ++ runes_of_ascii "
-@lengthOf(
-    // packet A { u8 x, }
-    body
-)
-    `" ++ [28040; 24687; 31867; 22411]%N ++ runes_of_ascii "` , @tag(255 ) // packet A { u8 x, }
-repeat// " ++ [128512]%N ++ runes_of_ascii " emoji
-Packet
-    { repeat
-    char
-    falsey
-`two words`
-, repeat T {
-char[]chars ,repeat f32a {
-    // packet A { u8 x, }
-    repeat char[] falsey `tab	here` , } ,
-    } , match u8x as pack { [ ""{,}""
-,
-""\" ++ [233]%N ++ runes_of_ascii """
-    ,
-// trailing space 
-// c
-""a	b"" ,
-    ""\n""
-,1] // " ++ [128512]%N ++ runes_of_ascii " emoji
-:
-int
-    ""x y"" :
-    A
-,
-""CRC32"" : leftPad
-, }
-    , //x
-f32a x //
-,} ,  }
-packet charz {  repeat lengthOf
-lengthOf , }
-options{ body =
-true;
-metadata = 4294967296 ; len= uint32 ;	} // @lengthOf(")).
-Eval vm_compute in ("<<<M1058>>>" ++ check (runes_of_ascii "root
-    packet rootA {
-x_y_z { _x// a // b
-, } ,	}
-    MetaData leftPad { } packet float {	repeat // trailing space 
-Header{  float64 i64_
-    @calculatedFrom( ""{,}"" ) `crlf
-line` ,// c
-}
-    , // @lengthOf(
-zchar
-    // " ++ [27880; 37322]%N ++ runes_of_ascii "
-    { charz @calculatedFrom(//x
-""a	b""  ),  zchar[	3	]
-T @calculatedFrom(
-    ""it's"")
-, packetx ,	x_y_z As`u8 x,` ,  },
-} root packet
-// `tick` ""quote"" 'q'
-//	t
-asx{ repeat
-uint32
-u128 ,
-    @tag( /// triple
-3) Z9_
-, crc	@calculatedFrom( """"
-// @lengthOf(
-// " ++ [27880; 37322]%N ++ runes_of_ascii "
-) `{ , }` ,  @calculatedFrom(
-""a\\"" )@calculatedFrom( ""a\""b"" ) @tag(
-0123456789
-    )
-match
-float
-as u{ //
-[ 1
-// `tick` ""quote"" 'q'
-//x
-, 0 ,
-007 , """ ++ [128512]%N ++ runes_of_ascii """ ,
-// " ++ [128512]%N ++ runes_of_ascii " emoji
-//
-3 ,	1
-// " ++ [128512]%N ++ runes_of_ascii " emoji
-// @lengthOf(
-, """ ++ [28040; 24687]%N ++ runes_of_ascii """, 10
-    ]: repeatCount ,} ,  repeat char metadata
-`tab	here`
-,
-    // @lengthOf(
-    @tag( 65535	)// a // b
-i64_ {
-    // " ++ [128512]%N ++ runes_of_ascii " emoji
-    i32 roots`a\`	, } , @lengthOf( repeatCount
-)
-    // a // b
-    i16
-    rootA @lengthOf( u) ,@lengthOf( Header ) _x{ repeat A i8i8
-    ,
-    }//
-, }")).
-Eval vm_compute in ("<<<M4397>>>" ++ check (runes_of_ascii "root packet rootA {
-    x_y_z {
-        _x,
-    },
-}
-
-MetaData leftPad {
-}
-
-packet float {
-    repeat Header {
-        float64 i64_ @calculatedFrom(""{,}"") `crlf
-                line`,// c
-    },// @lengthOf(
-    zchar {
-        charz @calculatedFrom(""a	b""),
-        zchar[3] T @calculatedFrom(""it's""),
-        packetx,
-        x_y_z As `u8 x,`,
-    },
-}
-
-root packet asx {
-    repeat uint32 u128,
-    @tag(3)
-    Z9_,
-    crc @calculatedFrom("""") `{ , }`,
-    @calculatedFrom(""a\\"")
-    @calculatedFrom(""a\""b"")
-    @tag(0123456789)
-    match float as u {
-        //
-        [
-            1, 0, 007, """ ++ [128512]%N ++ runes_of_ascii """, 3,
-            1, """ ++ [28040; 24687]%N ++ runes_of_ascii """, 10
-        ] : repeatCount,
-    },
-    repeat char metadata `tab	here`,
-    // @lengthOf(
-    @tag(65535)
-    // a // b
-    i64_ {
-        // " ++ [128512]%N ++ runes_of_ascii " emoji
-        i32 roots `a\`,
-    },
-    @lengthOf(repeatCount)
-    // a // b
-    i16 rootA @lengthOf(u),
-    @lengthOf(Header)
-    _x {
-        repeat A i8i8,
-    },
-}")).
-Eval vm_compute in ("<<<M881>>>" ++ check (runes_of_ascii "
-packet
-matchKey { @tag( // `tick` ""quote"" 'q'
-00	) x // " ++ [128512]%N ++ runes_of_ascii " emoji
-@calculatedFrom( ""a\\"" )
-    ,
-    } packet metadata{ @tag(	0
-) zchar[ 3] // " ++ [27880; 37322]%N ++ runes_of_ascii "
-asx @lengthOf( msg_type )
-, @tag( 65535 )zchar[ 1
-    ] Header ,@calculatedFrom(""`tick`"") @calculatedFrom( ""it's"" ) @lengthOf( i8i8
-    // trailing space 
-    ) f32a { repeat A{
-    repeat repeatCount
-// @lengthOf(
-// " ++ [128512]%N ++ runes_of_ascii " emoji
-T ,
-    },
-    uint8x { //	t
-int64 As`line1
-line2` ,	zchar[
-007 ]
-    //x
-    Pad // a // b
-`u8 x,`, repeat  trueish
-    // trailing space 
-    { repeat  char[ 1
-    ]
-i8i8 `crlf
-line` ,string_ metadata
-    `` , // a // b
-zchar ,	i8i8
-    int
-    `" ++ [28040; 24687; 31867; 22411]%N ++ runes_of_ascii "` ,} // " ++ [128512]%N ++ runes_of_ascii " emoji
-,
-} , },
-    @calculatedFrom( """"
-    // `tick` ""quote"" 'q'
-    ) zchar[
-007 ]o , } // trailing space 
-packet
-a1
-{
-i16 A @calculatedFrom( ""\" ++ [233]%N ++ runes_of_ascii """
-    // trailing space 
-    ) `line1
-line2` ,@leftPad( ) @tag( 7	) pack
-{ repeat As ,
-} , // c
-}")).
-Eval vm_compute in ("<<<M619>>>" ++ check (runes_of_ascii "  root packet repeatCount { @tag(10 )char[]
-options1 @calculatedFrom(// a // b
-""abc"" ) ,
-    repeat float32 trueish, int16 x`{ , }`  , }  packet o { char[ 007
-/// triple
-// packet A { u8 x, }
-] falsey `a\`, repeat float crc , match i64_ as roots // packet A { u8 x, }
-{ [ 4294967296 ,
-""// no comment""  ] : u8x ,	}
-    //x
-    , @rightPad(
-    '0' ) @leftPad ( ) char[] msg_type @calculatedFrom(
-""" ++ [233]%N ++ runes_of_ascii "t" ++ [233]%N ++ runes_of_ascii """
-    )
-// packet A { u8 x, }
-// " ++ [128512]%N ++ runes_of_ascii " emoji
-, match
-// a // b
-// " ++ [27880; 37322]%N ++ runes_of_ascii "
-tag	as x_y_z { """" :As}, f32 int
-    @calculatedFrom(""\" ++ [233]%N ++ runes_of_ascii """
-) , match u8x // trailing space 
-as repeatCount// c
-{ 42  : // packet A { u8 x, }
-calculatedFrom , [ 1 , 007
-    ] : T  } ,
-@lengthOf(
-Foo )u128
-{ pack
-    @lengthOf(zchar)  `u8 x,` ,}
-,
-i8 u , @lengthOf( Pad) match Header as As { [	00
-    ,
-"""",0123456789 , ""\n"" , 42 ]
-    // " ++ [128512]%N ++ runes_of_ascii " emoji
-    :repeatCount }, }
-")).
-Eval vm_compute in ("<<<M3528>>>" ++ check (runes_of_ascii "options {
-    LittleEndian = true;
-    StringPrefixLenType = u64;
-    ArrayPrefixLenType = u8;
-    FixedStringPadChar = '0';
-}
-packet Reject {
-    i32 Ref,
-    repeat f64 OrderId,
-    repeat InNote12 {
-        u8 pad0,
-    },
-    @leftPad(' ') char[6] count,
-}
-packet Logout {
-    zchar[6] Tail,
-    repeat string venue,
-}
-packet Cancel {
-    u64 count,
-    repeat char[5] lastPx,
-    i64 Tail,
-    repeat InF140 {
-        repeat Logout,
-        repeat Reject,
-    },
-}
-root packet Trade {
-    repeat InMsgkind39 {
-        repeat Reject,
-        char[4] Px,
-    },
-    string Acct,
-    uint16 price,
-    f32 OrderId,
-    u16 x,
-    u16 clOrdID @lengthOf(Body),
-    match x as Body {
-        178 : Logout,
-        13 : Cancel,
-        174 : Reject,
-    },
-    u16 Flags @calculatedFrom(""CR\
-C32""),
-}
-")).
-Eval vm_compute in ("<<<M1244>>>" ++ check (runes_of_ascii "// packet A { u8 x, }
-options {
-As = ""// no comment"";
-    } options //x
-{
-    string_ = float32
-int =
-'\x00' body
-=// " ++ [27880; 37322]%N ++ runes_of_ascii "
-zchar[ 1//
-]
-    }
-    MetaData
-    trueish {char A , tag falsey `line1
-line2` ,
-    float32
-crc `{ , }` ,	float32 rootA `
-` , char[ 1	] As  ,
-body
-    asx ,} root
-packet u8x { zchar[
-0123456789 ] Packet @calculatedFrom(
-    ""it's"" ) ,@leftPad
-    (
-// c
-//	t
-)
-    // `tick` ""quote"" 'q'
-    Logon `" ++ [233]%N ++ runes_of_ascii "`
-    ,	string metadata	`" ++ [28040; 24687; 31867; 22411]%N ++ runes_of_ascii "` ,// trailing space 
-u8x // a // b
-x
-`{ , }` , match string_
-as metadata {	10 : float
-    // c
-    }
-    ,
-    options1
-    @calculatedFrom(""" ++ [28040; 24687]%N ++ runes_of_ascii """
-    )
-,@rightPad ('0' )
-string
-packetx// " ++ [27880; 37322]%N ++ runes_of_ascii "
-,
-char[
-007]
-x_y_z
-    `a\` ,@rightPad ( ' ' ) chars { int32 o// c
-,float @calculatedFrom( ""packet"" )`line1
-line2`, }
-,
-}
-")).
-Eval vm_compute in ("<<<M3515>>>" ++ check (runes_of_ascii "options { // c1a
-  // c1b
-LittleEndian = // c3a
-  // c3b
-true
-    // c4
-;
+= // c3
+u16 ;
     // c5
 ArrayPrefixLenType // c6a
   // c6b
-= u64
-    // c8
-; // c9a
-  // c9b
-FixedStringPadFromLeft // c10a
+= // c7a
+  // c7b
+u32 // c8
+; FixedStringPadFromLeft // c10a
   // c10b
-= // c11a
-  // c11b
-false // c12
-; } packet
-    // c15
-Quote
-    // c16
-{ } // c18
-root // c19a
-  // c19b
-packet // c20a
-  // c20b
-Order // c21a
-  // c21b
-{
-    // c22
-i64 Side2
-    // c24
-, // c25
-Quote // c26a
-  // c26b
-,
-    // c27
-u32 Px // c29
-, // c30
-match
-    // c31
-Px
-    // c32
-as
-    // c33
-Body { [ // c36
-119
-    // c37
-,
-    // c38
-147 ] : // c41a
-  // c41b
-Quote // c42a
-  // c42b
-, // c43
-} ,
-    // c45
-u16
-    // c46
-Flags // c47a
-  // c47b
-@calculatedFrom( // c48a
-  // c48b
-""CRC32"" ) // c50a
-  // c50b
-,
-    // c51
-} ")).
-Eval vm_compute in ("<<<M3998>>>" ++ check (runes_of_ascii "MetaData stringy {
-    Packet falsey `" ++ [28040; 24687; 31867; 22411]%N ++ runes_of_ascii "`,
-}
-
-packet Foo {
-    @lengthOf(i8i8)
-    zchar[10] chars `{ , }`,
-    @calculatedFrom(""1"")
-    char[007] x,
-    @lengthOf(int)
-    zchar[10] string_ `two words`,
-    repeat repeatCount {
-        u32 len,
-        T rootA,
-        char[7] falsey @lengthOf(crc),
-        // " ++ [128512]%N ++ runes_of_ascii " emoji
-        // packet A { u8 x, }
-        int16 BodyLength,
-    },
-    packetx @lengthOf(u),
-    zchar[3] chars,
-    float32 x_y_z `{ , }`,
-    @calculatedFrom(""1"")
-    uint16 trueish @calculatedFrom(""" ++ [128512]%N ++ runes_of_ascii """) `line1
-        line2`,
-    Z9_ chars,
-}
-
-root packet crc {
-    char[] T,
-}
-
-MetaData len {
-    uint16 uint8x,
-    f64 string_ `" ++ [28040; 24687; 31867; 22411]%N ++ runes_of_ascii "`,
-    char[] i8i8 `// not a comment`,
-}")).
-Eval vm_compute in ("<<<M4241>>>" ++ check (runes_of_ascii "options {
-    metadata = '0'
-    int = 007;
-    zchar = '\x00';
-}
-
-packet charz {
-    @leftPad('0')
-    @tag(42)
-    @calculatedFrom(""a\""b"")
-    char[] packetx @calculatedFrom(""\" ++ [233]%N ++ runes_of_ascii """) `
-    `,
-    match charz as msg_type {
-        //
-        // trailing space 
-        4294967296 : o,
-        0123456789 : trueish,
-        ""// no comment"" : asx,
-        //x
-        [
-            65535, 65535, 3, ""a\""b"", ""a\\"",
-            """ ++ [28040; 24687]%N ++ runes_of_ascii """, 0123456789, ""a	b""
-        ] : T,
-    },
-    @rightPad(' ')
-    crc,
-    repeat char[] stringy `a\`,
-}
-
-// " ++ [128512]%N ++ runes_of_ascii " emoji
-// " ++ [128512]%N ++ runes_of_ascii " emoji
-MetaData tag {
-    uint64 metadata,
-    int64 trueish `{ , }`,
-    uint32 a1,
-    f32 Packet `// not a comment`,
-}")).
-Eval vm_compute in ("<<<M3915>>>" ++ check (runes_of_ascii "// packet A { u8 x, }
-MetaData f32a {
-    int64 i8i8,
-    u64 Packet ``,
-    falsey _x,// trailing space 
-    tag roots ``,
-    uint32 Foo `two words`,
-    char[] asx,
-}
-
-packet options1 {
-    char[00] u128,
-    //x
-    // a // b
-    @calculatedFrom(""`tick`"")
-    Header @calculatedFrom(""1""),
-    @leftPad()
-    match u as o {
-        [""a\\""] : stringy,
-        ""abc"" : f32a,
-    },
-    f64 x_y_z @lengthOf(o),
-    repeat char[00] int `
-        `,
-    char[] options1 `{ , }`,// `tick` ""quote"" 'q'
-    zchar[00] charz,
-    char[] MetaDataX `a\`,
-    match packetx as zchar {
-        [10, 1] : i8i8,
-        ""CRC32"" : Logon,
-    },
-}
-//	t")).
-Eval vm_compute in ("<<<M4247>>>" ++ check (runes_of_ascii "
-options {
-	zchar
-    = 
+= // c11
 false
-
-;Packet
-    =""`tick`"" 
-;a1  =
-    // c
-
-char[]
-; 
-Packet =
-
-0123456789
-    ;}packet msg_type
-{	/// triple
-  @lengthOf( u128
-	)body	@lengthOf(
-len  )
-
-    ,
-
-@calculatedFrom(
-""CRC32""
-    )zchar[ 
-    /// triple
-
-	007  ]	// packet A { u8 x, }
-
-repeatCount
-
-@lengthOf(
-    Foo  )
-
-    `it's`, i16
-leftPad
-	@calculatedFrom( ""a\\"" ) 
-`u8 x,`
-
-    ,
-    /// triple
-
-  float
-	,
-@lengthOf(
-	a1
-    )
-
-    As@lengthOf( rootA  )`doc` // @lengthOf(
-, 	 // " ++ [128512]%N ++ runes_of_ascii " emoji
-  	f32
-
-    o @calculatedFrom(""a	b"" ) `tab	here` 
-,
-} options
-	// @lengthOf(
-    // " ++ [27880; 37322]%N ++ runes_of_ascii "
-    {
-} options {
-} ")).
-Eval vm_compute in ("<<<M3555>>>" ++ check (runes_of_ascii "// top
-packet
-    // c0
-Sub { u8
-    // c3
-a // c4a
-  // c4b
-,
-    // c5
-@calculatedFrom( // c6
-""CRC16"" // c7
-) // c8a
-  // c8b
-i16 // c9a
-  // c9b
-SubSum
-    // c10
-, } // c12
-root packet
-    // c14
-Frame { // c16a
-  // c16b
-u16 // c17a
-  // c17b
-MsgType , u16
-    // c20
-BodyLen @lengthOf(
-    // c22
-Body // c23a
-  // c23b
-) // c24a
-  // c24b
-, Sub // c26a
-  // c26b
-Body // c27
-,
-    // c28
-string note // c30
-, @calculatedFrom( // c32
-""CRC16"" // c33
-) // c34a
-  // c34b
-i16 // c35a
-  // c35b
-Checksum // c36a
-  // c36b
-, u8 tail // c39
-, // c40
-} // c41a
-  // c41b
-")).
-Eval vm_compute in ("<<<M4371>>>" ++ check (runes_of_ascii "packet matchKey {
-    @rightPad(' ')
-    @tag(65535)
-    _x @lengthOf(options1) `" ++ [28040; 24687; 31867; 22411]%N ++ runes_of_ascii "`,
-    @lengthOf(o)
-    tag Logon,
-}
-
-packet pack {
-    @tag(7)
-    zchar[0] u @calculatedFrom(""\n"") `a\`,
-    repeat stringy,
-    repeat i8i8 a1,
-    char[0] pack @calculatedFrom(""\n"") `line1
-        line2`,
-}
-
-packet u128 {
-    @lengthOf(metadata)
-    int8 Foo `
-        `,
-    @leftPad('\x00')
-    zchar,
-    len Header,
-    repeat chars ``,
-    f64 trueish @calculatedFrom(""`tick`""),
-    @lengthOf(matchKey)
-    uint32 i8i8,
-    asx int `a\`,
-}")).
-Eval vm_compute in ("<<<M1089>>>" ++ check (runes_of_ascii "options
-{ u128// trailing space 
-=i8  T = float64
-    body =	char[ 0123456789 ] ;i8i8 = uint64	; }
-root packet calculatedFrom{
-    zchar[
-0123456789 ] As  @calculatedFrom(
-""" ++ [28040; 24687]%N ++ runes_of_ascii """ ) , // " ++ [128512]%N ++ runes_of_ascii " emoji
-@calculatedFrom( """ ++ [233]%N ++ runes_of_ascii "t" ++ [233]%N ++ runes_of_ascii """ ) repeat
-    Logon{ string
-    matchKey	@lengthOf( i8i8
-// `tick` ""quote"" 'q'
-// `tick` ""quote"" 'q'
-)
-    ,
-    repeat
-    i64_ ,
-} // a // b
-,repeat
-    uint8 u8x `a\`
-,
-char[ 255] pack
-    ,} MetaData options1 {
-string Pad `{ , }`
-, Header _x , u16 repeatCount// a // b
-`u8 x,`
-, }
-")).
-Eval vm_compute in ("<<<M3908>>>" ++ check (runes_of_ascii "
-packet // " ++ [27880; 37322]%N ++ runes_of_ascii "
-    	u8x  {u64 
-metadata `a\`,
-@tag(65535) @rightPad  (
-)  repeat 
-int16
-As  ,
-
-    @rightPad (
-)
-	match lengthOf
-    as 
-body
-	{ 
-7 : 
-	    // @lengthOf(
-// @lengthOf(
-    	chars  ,[
-
-255,
-	""// no comment""
-
-,
-    //x
-	0123456789,
-""\n"", 7
-	,
-
-    ""a	b"" ]
-:	x_y_z
-
-,
-	""abc""
-:
-
-    metadata
-
-    }
-
-    ,} packet  lengthOf{char[]  // " ++ [128512]%N ++ runes_of_ascii " emoji
-    As @calculatedFrom(
-""a\\""
-	) 
-        // " ++ [128512]%N ++ runes_of_ascii " emoji
-  // `tick` ""quote"" 'q'
-`a\` 
-	    //
-	, } 
-    // c
- 
-")).
-Eval vm_compute in ("<<<M3805>>>" ++ check (runes_of_ascii "packet f32a {
-}
-
-packet trueish {
-    @rightPad()
-    rootA @lengthOf(Pad),
-    @tag(0)
-    Logon @lengthOf(trueish),
-    As `
-    `,
-    repeat int8 Logon,
-    @tag(255)
-    // `tick` ""quote"" 'q'
-    char A,
-    i64 Header,
-    match Z9_ as falsey {
-        65535 : x_y_z,
-        ""CRC32"" : float,
-    },
-    i8 len,
-    @tag(7)
-    // `tick` ""quote"" 'q'
-    repeat rootA x_y_z,
-    @tag(00)
-    zchar[007] x_y_z `a\`,
-}
-
-MetaData roots {
-}// `tick` ""quote"" 'q'")).
-Eval vm_compute in ("<<<M981>>>" ++ check (runes_of_ascii "packet
-    BodyLength
-    //x
-    {
-//	t
-//	t
-@lengthOf( tag)
-    // " ++ [27880; 37322]%N ++ runes_of_ascii "
-    len `{ , }`,
-    @calculatedFrom(
-""\n"" )
-    zchar[ 00]
-i64_, repeat
-A{ char rootA , MetaDataX
-    @calculatedFrom(
-    ""\" ++ [233]%N ++ runes_of_ascii """
-    ) , }//x
-, } packet	Packet
-    {	uint64 Packet @calculatedFrom( /// triple
-""" ++ [28040; 24687]%N ++ runes_of_ascii """ )
-,
-char[007
-// " ++ [128512]%N ++ runes_of_ascii " emoji
-// a // b
-]
-x ,float64 uint8x // " ++ [128512]%N ++ runes_of_ascii " emoji
-@calculatedFrom(
-// " ++ [27880; 37322]%N ++ runes_of_ascii "
-// a // b
-""" ++ [233]%N ++ runes_of_ascii "t" ++ [233]%N ++ runes_of_ascii """ )  , } packet
-    float
-    {u128
-    , } // @lengthOf(")).
-Eval vm_compute in ("<<<M4131>>>" ++ check (runes_of_ascii "MetaData uint8x {
-    _x stringy,
-    i8i8 _x,
-    char[1] a1 `it's`,
-    crc metadata,
-}
-
-packet Logon {
-    /// triple
-    repeat Logon stringy,
-    match falsey as T {
-        [1] : packetx,
-        65535 : pack,
-        [""" ++ [28040; 24687]%N ++ runes_of_ascii """, ""abc""] : metadata,
-    },
-    @calculatedFrom(""x y"")
-    repeat len {
-        lengthOf @calculatedFrom(""`tick`""),
-        u8x msg_type,
-    },
-    @calculatedFrom(""\n"")
-    repeat i64 BodyLength,
-}")).
-Eval vm_compute in ("<<<M3547>>>" ++ check (runes_of_ascii "options {
-    LittleEndian = false;
-    StringPrefixLenType = u8;
-    ArrayPrefixLenType = u16;
-    FixedStringPadFromLeft = false;
-}
-packet Heartbeat {
-    u8 seqNo,
-    @rightPad('\x00') char[8] x,
-}
-root packet Trade {
-    repeat Heartbeat,
-    float32 OrderId,
-    i64 Acct,
-    u16 Qty,
-    u16 clOrdID,
-    match clOrdID as Body {
-        131 : Heartbeat,
-    },
-    u16 sym @calculatedFrom(""CR\
-C32""),
-}
-")).
-Eval vm_compute in ("<<<M818>>>" ++ check (runes_of_ascii "packet	lengthOf
-{@calculatedFrom( ""a	b"" )
-    char[]charz @calculatedFrom(	""`tick`"")
-    `{ , }`
-, } MetaData lengthOf {}  options
-    { o =
-    char[];
-// `tick` ""quote"" 'q'
-// trailing space 
-}	packet o
-{repeat repeatCount {repeat
-    i8 Header `tab	here`
-    ,
-//
-// packet A { u8 x, }
-x_y_z rootA
-`doc` , }, zchar[  65535
-] _x `
-` , @leftPad (
-    '\x00'
-) i32  options1 `crlf
-line`
-, }")).
-Eval vm_compute in ("<<<M893>>>" ++ check (runes_of_ascii "
-packet repeatCount{}packet pack
-{ _x @lengthOf(Pad )	, } options // c
-{ // " ++ [128512]%N ++ runes_of_ascii " emoji
-Foo=
-255 ;
-    // trailing space 
-    }packet tag { @tag( 0123456789 ) @calculatedFrom(// `tick` ""quote"" 'q'
-""a\""b"" )uint32 a1 ,repeat string_ {  zchar[ 255 ]T , // @lengthOf(
-},
-    @rightPad(
-) roots@lengthOf( trueish ) `// not a comment` ,	float // c
-, uint8x lengthOf	`two words`,}
-")).
-Eval vm_compute in ("<<<M3437>>>" ++ check (runes_of_ascii "packet B // c1
-{ // c2
-u8 // c3a
-  // c3b
-a // c4
-,
-    // c5
-} // c6a
-  // c6b
-root
-    // c7
-packet
-    // c8
-P // c9
-{ // c10a
-  // c10b
-u8 // c11
-K // c12a
-  // c12b
-, // c13a
+    // c12
+; // c13a
   // c13b
-u64 // c14
-L @lengthOf( Body // c17a
-  // c17b
-) // c18
-,
-    // c19
-match // c20a
-  // c20b
-K as // c22
-Body // c23
-{
-    // c24
-1 // c25
-: // c26
-B // c27
-, } , } // c31
-")).
-Eval vm_compute in ("<<<M858>>>" ++ check (runes_of_ascii "
-root packet f32a {	@leftPad
-( '0' ) @tag( 00 )
-@rightPad( '0'
-)falsey tag//x
-, /// triple
-float32 packetx`tab	here`
-    , Pad
-    , @tag( 255
-)
-    char[]T`" ++ [28040; 24687; 31867; 22411]%N ++ runes_of_ascii "` , repeat char[ 4294967296  ]
-    Logon  , repeat zchar[ // @lengthOf(
-007 ]x
-`
-`
-    //	t
-    ,
-uint64 uint8x `two words`
-,
-    Z9_ @lengthOf( f32a  )
-,	} // packet A { u8 x, }")).
-Eval vm_compute in ("<<<M4290>>>" ++ check (runes_of_ascii "
-root 
-packet
-packetx
-{uint32 
-x_y_z
-	@calculatedFrom(	""" ++ [233]%N ++ runes_of_ascii "t" ++ [233]%N ++ runes_of_ascii """	) , @calculatedFrom(
-""{,}""// trailing space 
-  )float
-
-    calculatedFrom`line1
-line2`
-	,
-	u16
-	Packet@lengthOf(f32a 
-)
-    ,	char[] 
-o
-
-`tab	here`
-	,
-@calculatedFrom(
-	""x y""	)
-    T { 
-repeat  i64
-    chars,
-
-    }
-	,
-    i16
-
-roots
-
-    ,
-
-} 	 // @lengthOf(")).
-Eval vm_compute in ("<<<M4270>>>" ++ check (runes_of_ascii "MetaData metadata {
-    char[3] roots,
-    As zchar,
-    u msg_type `say ""hi""`,
-    float32 options1 ``,
-    char[] packetx,
-}
-
-root packet f32a {
-    char[] MetaDataX `{ , }`,
-}
-
-/// triple
-// c
-packet _x {
-    @lengthOf(A)
-    i64 x,
-    int @lengthOf(MetaDataX),
-    repeat BodyLength {
-        f32 lengthOf,
-    },
-}")).
-Eval vm_compute in ("<<<M1590>>>" ++ check (runes_of_ascii "root packet Foo // " ++ [128512]%N ++ runes_of_ascii " emoji
-{ } options {
-    // a // b
-    tag // `tick` ""quote"" 'q'
-= //	t
-""""
-    ; u8x = zchar[0  ] }
-MetaData
-    int {zchar[ 10]
-lengthOf	`` , i64 u8x`// not a comment` ,MetaDataX pack// `tick` ""quote"" 'q'
-`crlf
-line`
-, Logon charz `crlf
-line` `crlf
-line`
-    ,
-    // a // b
-    }
-")).
-Eval vm_compute in ("<<<M1472>>>" ++ check (runes_of_ascii "root packet Foo // " ++ [128512]%N ++ runes_of_ascii " emoji
-{ } options {
-    // a // b
-    tag // `tick` ""quote"" 'q'
-= //	t
-""""
-    ; u8x packet zchar[0  ] }
-MetaData
-    int {zchar[ 10]
-lengthOf	`` , i64 u8x`// not a comment` ,MetaDataX pack// `tick` ""quote"" 'q'
-`crlf
-line`
-, Logon charz `crlf
-line`
-    ,
-    // a // b
-    }
-")).
-Eval vm_compute in ("<<<M1427>>>" ++ check (runes_of_ascii "root packet Foo // " ++ [128512]%N ++ runes_of_ascii " emoji
-f32 } options {
-    // a // b
-    tag // `tick` ""quote"" 'q'
-= //	t
-""""
-    ; u8x = zchar[0  ] }
-MetaData
-    int {zchar[ 10]
-lengthOf	`` , i64 u8x`// not a comment` ,MetaDataX pack// `tick` ""quote"" 'q'
-`crlf
-line`
-, Logon charz `crlf
-line`
-    ,
-    // a // b
-    }
-")).
-Eval vm_compute in ("<<<M1614>>>" ++ check (runes_of_ascii "root packet Foo // " ++ [128512]%N ++ runes_of_ascii " emoji
-{ } options {
-    // a // b
-    tag // `tick` ""quote"" 'q'
-= //	t
-""""
-    ; u8x = zchar[0  ] }
-~MetaData
-    int {zchar[ 10]
-lengthOf	`` , i64 u8x`// not a comment` ,MetaDataX pack// `tick` ""quote"" 'q'
-`crlf
-line`
-, Logon charz `crlf
-line`
-    ,
-    // a // b
-    }
-")).
-Eval vm_compute in ("<<<M1537>>>" ++ check (runes_of_ascii "root packet Foo // " ++ [128512]%N ++ runes_of_ascii " emoji
-{ } options {
-    // a // b
-    tag // `tick` ""quote"" 'q'
-= //	t
-""""
-    ; u8x = zchar[0  ] }
-MetaData
-    int {zchar[ 10]
-lengthOf	`` : i64 u8x`// not a comment` ,MetaDataX pack// `tick` ""quote"" 'q'
-`crlf
-line`
-, Logon charz `crlf
-line`
-    ,
-    // a // b
-    }
-")).
-Eval vm_compute in ("<<<M1554>>>" ++ check (runes_of_ascii "root packet Foo // " ++ [128512]%N ++ runes_of_ascii " emoji
-{ } options {
-    // a // b
-    tag // `tick` ""quote"" 'q'
-= //	t
-""""
-    ; u8x = zchar[0  ] }
-MetaData
-    int {zchar[ 10]
-lengthOf	`` , i64 u8x`// not a comment` MetaDataX pack// `tick` ""quote"" 'q'
-`crlf
-line`
-, Logon charz `crlf
-line`
-    ,
-    // a // b
-    }
-")).
-Eval vm_compute in ("<<<M1564>>>" ++ check (runes_of_ascii "root packet Foo // " ++ [128512]%N ++ runes_of_ascii " emoji
-{ } options {
-    // a // b
-    tag // `tick` ""quote"" 'q'
-= //	t
-""""
-    ; u8x = zchar[0  ] }
-MetaData
-    int {zchar[ 10]
-lengthOf	`` , i64 u8x`// not a comment` ,MetaDataX // `tick` ""quote"" 'q'
-`crlf
-line`
-, Logon charz `crlf
-line`
-    ,
-    // a // b
-    }
-")).
-Eval vm_compute in ("<<<M1075>>>" ++ check (runes_of_ascii "
-root packet u  {@rightPad('\x00')
-Logon @calculatedFrom( ""{,}"" ) `" ++ [233]%N ++ runes_of_ascii "` , @tag(3	) string repeatCount ,match packetx // " ++ [128512]%N ++ runes_of_ascii " emoji
-as u8x  {
-65535 :i8i8
-    //x
-    , 007 // trailing space 
-:roots // " ++ [27880; 37322]%N ++ runes_of_ascii "
-,""a	b"" : BodyLength //	t
-,
-} ,
-@tag( 00 ) uint32
-repeatCount @lengthOf( u128) , }")).
-Eval vm_compute in ("<<<M264>>>" ++ check (runes_of_ascii "
-packet tag { char[]i64_
-    `crlf
-line`, @tag(4294967296	)
-repeat // c
-f32a { char[]
-u8x @lengthOf( Foo)
-    `{ , }` ,
-match
-Foo // " ++ [128512]%N ++ runes_of_ascii " emoji
-as
-packetx {255 : uint8x [	""\" ++ [233]%N ++ runes_of_ascii """ ]
-: matchKey ,} ,	},
-As @calculatedFrom( ""a	b"" )
-`doc`, char[] BodyLength `two words`	, }
-")).
-Eval vm_compute in ("<<<M3452>>>" ++ check (runes_of_ascii "// top
-options // c0a
-  // c0b
-{ LittleEndian = // c3a
-  // c3b
-true ; // c5a
-  // c5b
-} // c6
-root
-    // c7
-packet P
-    // c9
-{ u16
-    // c11
-a , u32 // c14a
+FixedStringPadChar // c14a
   // c14b
-Sum @calculatedFrom( // c16a
-  // c16b
-""CRC32"" // c17
-) , // c19
-} // c20a
-  // c20b
-")).
-Eval vm_compute in ("<<<M714>>>" ++ check (runes_of_ascii "root packet  u128 {	} root packet x_y_z
-{ @tag( 10	)//x
-repeat
-    char[]
-roots
+= // c15
+'0'
+    // c16
+; // c17
+}
+    // c18
+packet Logout
+    // c20
+{ // c21
+f64 f1 // c23a
+  // c23b
+, // c24
+i16
+    // c25
+Note // c26
+, // c27
+@rightPad ( // c29
+'\x00' // c30
+) char[ // c32
+11 // c33
+] // c34a
+  // c34b
+Flags // c35a
+  // c35b
 ,
-    @calculatedFrom( ""it's""	) zchar[ 00]
-trueish`a\` ,zchar[ 10]
-crc @calculatedFrom(""// no comment""
-    ),
-    float32
-    BodyLength @calculatedFrom(  ""\n"" )
-, }
+    // c36
+} // c37
+packet // c38
+Cancel // c39a
+  // c39b
+{ // c40
+float64
+    // c41
+msgKind ,
+    // c43
+} // c44
+packet
+    // c45
+Reject // c46a
+  // c46b
+{ // c47
+InQty43 // c48a
+  // c48b
+{ // c49
+float32 // c50a
+  // c50b
+sym // c51
+, // c52
+char[ // c53a
+  // c53b
+10
+    // c54
+]
+    // c55
+Tail // c56
+, // c57a
+  // c57b
+uint8 // c58
+venue // c59a
+  // c59b
+, // c60
+uint16
+    // c61
+f1 ,
+    // c63
+char[ 9 ] Acct
+    // c67
+, // c68
+} , // c70
+} // c71a
+  // c71b
+packet Trade
+    // c73
+{ // c74
+char[] // c75a
+  // c75b
+x , // c77a
+  // c77b
+zchar[ // c78
+6 ] // c80
+Note , // c82a
+  // c82b
+repeat // c83a
+  // c83b
+Reject // c84a
+  // c84b
+, } root
+    // c87
+packet
+    // c88
+Order // c89a
+  // c89b
+{ // c90a
+  // c90b
+Cancel , Logout // c93
+, // c94a
+  // c94b
+u64 // c95
+Acct // c96
+, u32 // c98a
+  // c98b
+OrderId
+    // c99
+, match // c101
+OrderId // c102a
+  // c102b
+as // c103
+Body // c104a
+  // c104b
+{ [ // c106
+127 // c107
+, // c108a
+  // c108b
+70
+    // c109
+] : // c111a
+  // c111b
+Reject
+    // c112
+, 177 // c114a
+  // c114b
+: // c115
+Trade ,
+    // c117
+58
+    // c118
+: // c119a
+  // c119b
+Logout , 75 // c122
+:
+    // c123
+Cancel // c124a
+  // c124b
+,
+    // c125
+}
+    // c126
+, u32 // c128a
+  // c128b
+Tail
+    // c129
+@calculatedFrom(
+    // c130
+""CRC32"" // c131
+) // c132a
+  // c132b
+, // c133
+} // c134
 ")).
-Eval vm_compute in ("<<<M3478>>>" ++ check (runes_of_ascii "packet order_item // c1a
+Eval vm_compute in ("<<<M1580>>>" ++ check (runes_of_ascii "
+MetaData
+i8i8
+
+    // trailing space 
+{ Pad rootA`tab	here`//
+  , 
+x_y_z
+
+metadata	,  zchar[
+    255
+	]
+x_y_z	`doc` ,
+
+    metadata i8i8
+
+,	uint8x
+leftPad `say ""hi""` 
+,
+
+    int32	charz
+    `" ++ [28040; 24687; 31867; 22411]%N ++ runes_of_ascii "`,  }
+packet
+
+    len 
+{ char[ 255
+    ]
+f32a  //x
+@calculatedFrom(  ""a	b"" )  `// not a comment`	, f64
+u8x
+        //
+// `tick` ""quote"" 'q'
+, options1
+
+    {
+string
+	charz  `u8 x,`
+
+, 
+string_// packet A { u8 x, }
+	  @calculatedFrom(	// " ++ [27880; 37322]%N ++ runes_of_ascii "
+      ""a	b""	)
+
+    ,
+
+repeat
+    falsey { a1
+
+`it's` , stringy@lengthOf( 
+Foo )	,repeat  zchar[	10]
+
+Logon  `line1
+line2`,  uint16	repeatCount
+
+    @lengthOf( options1)
+	`doc`
+
+    ,
+}
+
+, repeat//x
+	u packetx,	} ,
+falsey 
+x_y_z ,	char[]
+matchKey`u8 x,`
+	,}
+    packet
+	float{
+@lengthOf(Foo
+
+)
+u16
+	a1
+
+`crlf
+line`// `tick` ""quote"" 'q'
+	,
+    // `tick` ""quote"" 'q'
+	@leftPad () 
+@lengthOf( string_ // `tick` ""quote"" 'q'
+  )match
+
+    asx 
+as
+
+lengthOf  { """":f32a
+    ,
+    }
+
+    , roots
+    { 
+f32
+A `a\` 
+,	i8 
+trueish
+@lengthOf(
+    rootA 
+) ,
+
+} , options1 
+@lengthOf( 
+_x	)
+	, 	 /// triple
+	@lengthOf(
+
+asx	// `tick` ""quote"" 'q'
+  )
+    charz 
+    // " ++ [27880; 37322]%N ++ runes_of_ascii "
+    ,
+    zchar[
+    10
+]	a1 
+@calculatedFrom(
+""// no comment"" ) 
+`say ""hi""`
+
+    ,  //x
+  uint16
+	x
+    @calculatedFrom(
+
+    ""a\\""
+
+) 
+,
+	}
+
+")).
+Eval vm_compute in ("<<<M196>>>" ++ check (runes_of_ascii "packet
+a1
+    { @rightPad
+    ( ' '  ) repeat	a1 ,
+    //	t
+    repeat
+float32 i8i8	`two words`, @lengthOf( A ) float zchar ,@rightPad(
+'0'
+)	uint32 o `doc`
+, @calculatedFrom( ""packet""
+    )	repeat
+asx `crlf
+line`//	t
+, @tag( 007 )
+@calculatedFrom(	""CRC32""
+)repeat uint64 A `line1
+line2` , @leftPad ( '\x00'
+)
+// packet A { u8 x, }
+//x
+string stringy `` , @rightPad( '\x00' ) @tag( 255 /// triple
+)
+body
+    @lengthOf( Z9_	)
+,match
+x_y_z
+// packet A { u8 x, }
+// " ++ [128512]%N ++ runes_of_ascii " emoji
+as
+falsey{""\" ++ [233]%N ++ runes_of_ascii """: options1
+, } ,Logon falsey
+// c
+// " ++ [27880; 37322]%N ++ runes_of_ascii "
+`say ""hi""`
+, } packet// " ++ [128512]%N ++ runes_of_ascii " emoji
+Foo { }options {
+// @lengthOf(
+// `tick` ""quote"" 'q'
+f32a
+=	""a\""b"" ;
+float= '0' ;  calculatedFrom
+    = 65535
+    ; msg_type= '0';
+    // trailing space 
+    A = """"
+} root packet
+string_ {
+match float as u128{ [ ""\n""
+]	:// trailing space 
+Packet , }
+    ,} packet charz { lengthOf @calculatedFrom(
+    // " ++ [128512]%N ++ runes_of_ascii " emoji
+    """ ++ [28040; 24687]%N ++ runes_of_ascii """)
+,
+    @leftPad
+( ' ' ) repeat chars`" ++ [28040; 24687; 31867; 22411]%N ++ runes_of_ascii "`, match leftPad
+    as a1 {
+    ""`tick`"" :
+    string_ // c
+,
+// c
+// c
+10
+:
+    string_, 4294967296// a // b
+: Foo
+, } , }")).
+Eval vm_compute in ("<<<M1429>>>" ++ check (runes_of_ascii "
+
+  options{ 
+LittleEndian
+	=
+    true
+	; StringPrefixLenType =
+u32	;	FixedStringPadChar
+
+    = '0'  ;
+}
+	packet
+	Logout
+{ repeat
+
+InMsgkind49 {
+
+u8
+	pad0  ,
+} 
+,
+repeat char[	5	]  seqNo,
+
+repeat	u8 price  ,	}
+
+packet
+
+Party {
+    zchar[7
+
+    ] 
+Qty , }packet
+Logon
+{
+repeat InRef10	{
+    string  price  ,
+char[]sym	, repeat Logout
+,} 
+, repeat
+
+    char[
+    3]
+
+count	, repeat
+    Party,
+char[]
+
+tag7 ,	@rightPad ('0'
+	) char[2
+	]
+clOrdID , }packet
+	Order {
+
+InTail13
+    { Party 
+,
+    }
+	,  repeat
+
+    char[
+4
+    ]count
+	, 
+}  root
+
+packet	Cancel  { Logout	,	@leftPad
+
+    ( '0' 
+)
+
+char[  9]  msgKind
+	,string lastPx
+
+    ,
+string tag7
+,  zchar[  1
+	] OrderId
+,
+repeat
+	Party
+, u16
+sym
+	, u16  Acct@lengthOf(
+Body)
+    , 
+match sym
+
+    as 
+Body{	[
+	24,
+44
+    ]  :
+    Logout
+,
+
+160 : Order ,
+91 :
+
+Logon
+
+    ,
+	43
+:
+Party
+
+    ,
+    }
+    ,  u16 Tail
+	@calculatedFrom(""CRC32""
+    )
+,	}
+")).
+Eval vm_compute in ("<<<M1681>>>" ++ check (runes_of_ascii "
+options
+    {
+	// c
+
+  //x
+    u128
+=
+true
+
+    ;	Header// trailing space 
+	=
+
+    ""packet""stringy
+=
+""CRC32""
+
+A = '0'	; 
+}
+
+    packet 
+calculatedFrom
+{
+
+    repeat u128
+
+Logon ,
+    // packet A { u8 x, }
+
+	// " ++ [128512]%N ++ runes_of_ascii " emoji
+	} 
+packet body
+    {
+@calculatedFrom( ""\" ++ [233]%N ++ runes_of_ascii """
+)
+metadata `a\`,
+
+    // c
+    // c
+    stringy {
+
+//	t
+	uint8	A
+`tab	here`,
+	repeat
+
+u
+        // `tick` ""quote"" 'q'
+      As
+, 	 /// triple
+zchar[
+
+65535
+
+]
+x_y_z @lengthOf(
+
+    crc
+
+)	//
+  ,
+} 
+,
+    @calculatedFrom(
+	""{,}"")
+    len /// triple
+	@lengthOf(
+roots	)
+    ,
+	char[ 7  ]	BodyLength
+
+    `{ , }`
+	,
+    // c
+  int64 
+_x 
+,
+
+    @calculatedFrom(
+
+    ""it's"" 	 // " ++ [27880; 37322]%N ++ runes_of_ascii "
+
+  )match
+
+    pack as
+As  {
+""CRC32""	:
+
+o  ,
+
+}
+    , zchar[
+4294967296
+
+    ]  i64_@calculatedFrom( 
+""// no comment"" )
+
+,
+    }
+")).
+Eval vm_compute in ("<<<M1440>>>" ++ check (runes_of_ascii "options { 
+LittleEndian =
+
+    false ;  StringPrefixLenType=
+
+    u16
+;	ArrayPrefixLenType=  u32
+; }
+
+    packet 
+Order
+
+    {
+
+    uint8
+x
+	,repeat
+string venue
+	, }packet Heartbeat { i64 count,
+zchar[
+
+    1 ]
+Qty
+
+    ,
+
+    repeat
+	InX29  {
+
+InSeqno26
+    { 
+int64 f1,char[	5 
+]
+
+Acct
+
+    ,
+
+    Order , }	,
+
+    repeat
+    InSide285{
+
+repeat
+	Order
+    ,	char[ 10
+	]Px, zchar[
+
+9  ]OrderId
+    ,}
+
+    , char[]
+	venue
+,Order,
+}
+
+,
+
+@rightPad(
+'\x00'	)	char[
+	4
+    ]
+clOrdID
+
+,
+
+} 
+root packet	Party { zchar[3]
+
+    f1 
+, u32 clOrdID 
+,
+    u32 Px
+	@lengthOf( 
+Body)
+
+,match clOrdID as
+    Body
+{ [
+
+    180
+	,
+64 
+] :Heartbeat , 11  :
+Order
+,	}
+,
+u32  Side2  @calculatedFrom(
+""CRC32""
+    )	,}
+
+")).
+Eval vm_compute in ("<<<M326>>>" ++ check (runes_of_ascii "options {
+a1 = '\x00';Pad=
+char[007 ] ;
+} MetaData o{
+zchar[  42] crc ,
+} /// triple
+packet matchKey { @lengthOf( u ) @tag(	65535 )
+i8i8
+    `// not a comment`,match
+    u128 as msg_type
+{10 : //	t
+zchar
+    0 : lengthOf ,3
+:uint8x
+, ""x y"" :
+msg_type , 255  :
+matchKey , } ,char[  3 //
+] // trailing space 
+As `a\`,
+@lengthOf( // c
+calculatedFrom) match //	t
+chars
+as u128{
+    // packet A { u8 x, }
+    [""a	b"" , 00/// triple
+] :
+zchar , // `tick` ""quote"" 'q'
+7 : leftPad [255 // @lengthOf(
+,
+""x y""
+, 4294967296
+    //	t
+    ,	0 ,
+    //
+    3
+// a // b
+//x
+] :
+    Packet, // `tick` ""quote"" 'q'
+[ """ ++ [128512]%N ++ runes_of_ascii """
+] : body ,
+    """ ++ [28040; 24687]%N ++ runes_of_ascii """
+:
+    Z9_ , }
+,
+} options { }
+")).
+Eval vm_compute in ("<<<M1416>>>" ++ check (runes_of_ascii "packet Logon // c1
+{ // c2
+string // c3a
+  // c3b
+user // c4
+, // c5a
+  // c5b
+}
+    // c6
+root packet Frame // c9a
+  // c9b
+{
+    // c10
+u8
+    // c11
+K , // c13
+match
+    // c14
+K
+    // c15
+as
+    // c16
+Body // c17a
+  // c17b
+{ 1 // c19a
+  // c19b
+: Logon // c21
+, // c22a
+  // c22b
+2 :
+    // c24
+Logout
+    // c25
+, } ,
+    // c28
+Tail , } packet // c32
+Logout
+    // c33
+{ // c34
+u16 // c35a
+  // c35b
+reason // c36a
+  // c36b
+, // c37
+} // c38a
+  // c38b
+packet // c39a
+  // c39b
+Tail // c40
+{ u32
+    // c42
+crc , // c44a
+  // c44b
+} // c45a
+  // c45b
+")).
+Eval vm_compute in ("<<<M335>>>" ++ check (runes_of_ascii "packet Logon//x
+{ @calculatedFrom( ""a	b""
+    ) repeat options1 , @calculatedFrom(
+    ""a\\"") // c
+char[] options1 `it's`, @tag(4294967296 ) repeat Logon
+{match trueish as
+    u128
+    {""x y""
+    //	t
+    :// c
+i64_
+    ,
+    [ 4294967296 , 007, 10 ]: i8i8 , } ,
+//
+// @lengthOf(
+T	`u8 x,` ,repeat uint64 T `u8 x,`
+, } , } options // @lengthOf(
+{u128 =// trailing space 
+'0'tag =  true
+    ; Packet  = char[ 0123456789 ] ;
+    Foo = 007 body
+= 3 ;
+    } packet i64_
+{ }
+//x
+")).
+Eval vm_compute in ("<<<M1868>>>" ++ check (runes_of_ascii "// top
+packet P1 {
+    // c2
+    u8 a,// c5
+}
+
+// c6
+packet P2 {
+    // c9
+    P1,// c11
+}
+
+packet P3 {
+    P2,
+    P1,
+}
+
+// c20
+packet P4 {
+    repeat P3,
+    // c26
+    P2,// c28
+}
+
+// c29
+root packet P5 {
+    // c33
+    P4,// c35a
+    // c35b
+    P3,// c37
+    P1,
+    u8 K,// c42
+    match K as Body {
+        // c47
+        4 : P4,
+        3 : P3,
+        2 : P2,
+        // c59
+        1 : P1,
+    },// c65
+}
+// c66")).
+Eval vm_compute in ("<<<M1424>>>" ++ check (runes_of_ascii "options {
+    LittleEndian = false;
+    StringPrefixLenType = u32;
+    ArrayPrefixLenType = u16;
+}
+packet Party {
+    @leftPad('0') char[12] Ref,
+    repeat char[6] x,
+}
+packet Logon {
+    uint32 clOrdID,
+    Party,
+}
+root packet Ack {
+    zchar[2] f1,
+    u32 seqNo,
+    u32 Side2 @lengthOf(Body),
+    match seqNo as Body {
+        43 : Logon,
+        93 : Party,
+    },
+}
+")).
+Eval vm_compute in ("<<<M209>>>" ++ check (runes_of_ascii "
+packet //
+u8x
+    {
+    @lengthOf( Logon )
+    u128 { //x
+Logon@lengthOf( msg_type
+), }
+    ,  repeat
+uint8x
+, // @lengthOf(
+int64 // c
+o `tab	here`
+    , }MetaData
+    int{// " ++ [128512]%N ++ runes_of_ascii " emoji
+char[]
+    // `tick` ""quote"" 'q'
+    chars `it's`,	int crc `{ , }`, // @lengthOf(
+}root packet chars
+    { char[]
+x_y_z , }
+// trailing space 
+")).
+Eval vm_compute in ("<<<M1399>>>" ++ check (runes_of_ascii "packet
+    A 
+{	u8
+a
+	,
+    }
+packet B{u16 b , } packet
+	C{u32 c , 
+}
+root  packet M{u16
+
+    Kc , 
+u16 Kb ,  u16 Ka
+
+,
+
+    match Kc
+as
+
+X{ 9
+    :
+
+    A, 10
+	: 
+B
+
+,	}
+
+, match	Kb 
+as 
+Y	{2 :
+C
+    ,
+
+    1: A 
+,
+    }
+
+,
+
+    match 
+Ka
+as Z{  1
+    :
+	B
+, 
+} 
+, A, B,
+C,
+    }
+
+")).
+Eval vm_compute in ("<<<M1403>>>" ++ check (runes_of_ascii "packet MDSnapshotZZ {
+    u8 a,
+}
+packet OrderACK {
+    u16 b,
+}
+packet HTTPServerInfo {
+    string s,
+}
+root packet FIXMsg {
+    u8 KType,
+    MDSnapshotZZ,
+    repeat OrderACK,
+    match KType as Body {
+        1 : HTTPServerInfo,
+        2 : OrderACK,
+    },
+}
+")).
+Eval vm_compute in ("<<<M1392>>>" ++ check (runes_of_ascii "packet order_item // c1a
   // c1b
 { u8 // c3
 a
@@ -1845,599 +996,406 @@ x
 } // c16a
   // c16b
 ")).
-Eval vm_compute in ("<<<M2266>>>" ++ check (runes_of_ascii "MetaData Packet { }packet	asx  { @lengthOf( asx) falsey`crlf
-line` `crlf
-line`
-,
-    }
-    packet x	{uint32// @lengthOf(
-rootA	,u32 options1 `say ""hi""` , @tag( 7
-    )// packet A { u8 x, }
-msg_type @lengthOf(
-stringy	)	, }
-
-")).
-Eval vm_compute in ("<<<M2243>>>" ++ check (runes_of_ascii "MetaData Packet { }packet	asx  @leftPad @lengthOf( asx) falsey`crlf
-line`
-,
-    }
-    packet x	{uint32// @lengthOf(
-rootA	,u32 options1 `say ""hi""` , @tag( 7
-    )// packet A { u8 x, }
-msg_type @lengthOf(
-stringy	)	, }
-
-")).
-Eval vm_compute in ("<<<M1364>>>" ++ check (runes_of_ascii "packet
-MetaDataX {
-    @lengthOf(
-    calculatedFrom // `tick` ""quote"" 'q'
-) repeat char[
-    3 ] lengthOf ,uint32 msg_type//x
-@lengthOf(falsey )
-`
-`
-    , u32 // a // b
-u8x@calculatedFrom(  """ ++ [28040; 24687]%N ++ runes_of_ascii """	)`crlf
-line` , }
-")).
-Eval vm_compute in ("<<<M2386>>>" ++ check (runes_of_ascii "MetaData Packet { }packet	asx  { @lengthOf( asx) falsey`crlf
-line`
-,
-    }
-    pac?ket x	{uint32// @lengthOf(
-rootA	,u32 options1 `say ""hi""` , @tag( 7
-    )// packet A { u8 x, }
-msg_type @lengthOf(
-stringy	)	, }
-
-")).
-Eval vm_compute in ("<<<M2337>>>" ++ check (runes_of_ascii "MetaData Packet { }packet	asx  { @lengthOf( asx) falsey`crlf
-line`
-,
-    }
-    packet x	{uint32// @lengthOf(
-rootA	,u32 options1 `say ""hi""` , @tag( )
-    7// packet A { u8 x, }
-msg_type @lengthOf(
-stringy	)	, }
-
-")).
-Eval vm_compute in ("<<<M251>>>" ++ check (runes_of_ascii "MetaData rootA	{
-roots Header ,} root packet chars{ @tag(  1  )
-repeat char[] stringy `doc` ,}
-    root packet int{ uint8x MetaDataX	, }MetaData Logon {
-x_y_z
-i64_// @lengthOf(
-,Z9_
-_x , body crc `say ""hi""`,
-}
-")).
-Eval vm_compute in ("<<<M4117>>>" ++ check (runes_of_ascii "MetaData Packet {
-}
-
-packet asx {
-    @lengthOf(asx)
-    falsey `crlf
-        line`,
-}
-
-packet x {
-    uint32 rootA,
-    u32 options1,
-    @tag(7)
-    // packet A { u8 x, }
-    msg_type @lengthOf(stringy),
-}")).
-Eval vm_compute in ("<<<M3981>>>" ++ check (runes_of_ascii "packet chars {
-    repeat float32 x_y_z,
-    @tag(0123456789)
-    char[255] rootA `{ , }`,
-}
-
-options {
-    x = zchar[00];
-    Packet = '\x00';
-}
-
-options {
-    Z9_ = ""CRC32"";
-    As = uint32;
-}// a // b")).
-Eval vm_compute in ("<<<M336>>>" ++ check (runes_of_ascii "packet
-    a1//	t
-{ @tag( 10 )	match x
-    as float { 007
-: falsey
-    , }	,}
-options
-    { uint8x  = false ; } MetaData
-    rootA
-    {
-//	t
+Eval vm_compute in ("<<<M502>>>" ++ check (runes_of_ascii "options
+{
+matchKey = 42/// triple
+x='0' ;
 // packet A { u8 x, }
-u32 i64_	,zchar[ 42] zchar, }
+//
+charz
+=
+// packet A { u8 x, }
+// trailing space 
+true  ; } MetaData BodyLength
+{
+uint8
+pack,zchar[ 1]float float ,  float32 x_y_z `` ,u32
+_x,i16 body  , }
 ")).
-Eval vm_compute in ("<<<M1077>>>" ++ check (runes_of_ascii "// @lengthOf(
-MetaData u
-{ char[]	float
-    ,u8
-    leftPad
-`
-` ,
-// a // b
-// a // b
-metadata
-string_ ,char[] // c
-Header
-    // trailing space 
-    , zchar[
-    0123456789]  a1`
-` ,}
+Eval vm_compute in ("<<<M402>>>" ++ check (runes_of_ascii "options
+{
+matchKey = = 42/// triple
+x='0' ;
+// packet A { u8 x, }
+//
+charz
+=
+// packet A { u8 x, }
+// trailing space 
+true  ; } MetaData BodyLength
+{
+uint8
+pack,zchar[ 1]float ,  float32 x_y_z `` ,u32
+_x,i16 body  , }
 ")).
-Eval vm_compute in ("<<<M4216>>>" ++ check (runes_of_ascii "options {
-    // `tick` ""quote"" 'q'
-    len = """ ++ [28040; 24687]%N ++ runes_of_ascii """;
-    options1 = int32
-    zchar = ""1"";
-    float = true
-    tag = """ ++ [28040; 24687]%N ++ runes_of_ascii """;
+Eval vm_compute in ("<<<M524>>>" ++ check (runes_of_ascii "options
+{
+matchKey = 42/// triple
+x='0' ;
+// packet A { u8 x, }
+//
+charz
+=
+// packet A { u8 x, }
+// trailing space 
+true  ; } MetaData BodyLength
+{
+uint8
+pack,zchar[ 1]float ,  float32 x_y_z u32 ,u32
+_x,i16 body  , }
+")).
+Eval vm_compute in ("<<<M481>>>" ++ check (runes_of_ascii "options
+{
+matchKey = 42/// triple
+x='0' ;
+// packet A { u8 x, }
+//
+charz
+=
+// packet A { u8 x, }
+// trailing space 
+true  ; } MetaData BodyLength
+{
+uint8
+pack zchar[ 1]float ,  float32 x_y_z `` ,u32
+_x,i16 body  , }
+")).
+Eval vm_compute in ("<<<M406>>>" ++ check (runes_of_ascii "options
+{
+matchKey = /// triple
+x='0' ;
+// packet A { u8 x, }
+//
+charz
+=
+// packet A { u8 x, }
+// trailing space 
+true  ; } MetaData BodyLength
+{
+uint8
+pack,zchar[ 1]float ,  float32 x_y_z `` ,u32
+_x,i16 body  , }
+")).
+Eval vm_compute in ("<<<M459>>>" ++ check (runes_of_ascii "options
+{
+matchKey = 42/// triple
+x='0' ;
+// packet A { u8 x, }
+//
+charz
+=
+// packet A { u8 x, }
+// trailing space 
+true  ; } { BodyLength
+{
+uint8
+pack,zchar[ 1]float ,  float32 x_y_z `` ,u32
+_x,i16 body  , }
+")).
+Eval vm_compute in ("<<<M705>>>" ++ check (runes_of_ascii "// c
+packet i64_ {	char[] calculatedFrom calculatedFrom , } packet
+trueish  {@calculatedFrom(
+""a\\"" ) o { i32 falsey@lengthOf( uint8x ),
+} , } // `tick` ""quote"" 'q'
+options {// c
+Z9_ = ' '//
+}
+")).
+Eval vm_compute in ("<<<M1510>>>" ++ check (runes_of_ascii "// top
+packet o {
+    // c2
+    @tag(42)
+    // c5
+    repeat x {
+        // c8
+        char[0123456789] i64_,
+        // c13
+    },
+    // c15
 }
 
-MetaData u128 {
-    msg_type i8i8 `doc`,
-    o body,
-}")).
-Eval vm_compute in ("<<<M3619>>>" ++ check (runes_of_ascii "
+// c16
+options {
+    // c18
+}
+// c19")).
+Eval vm_compute in ("<<<M718>>>" ++ check (runes_of_ascii "// c
+packet i64_ {	char[] calculatedFrom , } packet
+trueish  {@calculatedFrom(
+""a\\"" ) o { i32 falsey@lengthOf( ) uint8x,
+} , } // `tick` ""quote"" 'q'
+options {// c
+Z9_ = ' '//
+}
+")).
+Eval vm_compute in ("<<<M1486>>>" ++ check (runes_of_ascii "
 
-  packet u128 { u128
-    @lengthOf(
+  packet
 
-    matchKey 
-)
+    A
+
+{ match
+    k  as
+n{
+[""a"" 
+,""bb""
+
+    ,
+
+    ""c c"" ,""d"" , ""e"",	""f""
 ,
-u64	//x
-crc 
-`a\`
-    , @calculatedFrom(
+""g"" 
+,
+""h""
+	,
+""i""
 
-""x y""	)
+    , ""j"",
+    ""k"" 
+,""l""  ]
 
-    float32 zchar,	repeat char[ 007
-] 
-uint8x, a1
+:
+
+B 
+2
+    :	C 
+},}
+")).
+Eval vm_compute in ("<<<M83>>>" ++ check (runes_of_ascii "packet // trailing space 
+msg_type { repeat string
+// `tick` ""quote"" 'q'
+// @lengthOf(
+BodyLength  `two words`
+// packet A { u8 x, }
+// packet A { u8 x, }
 , }
 ")).
-Eval vm_compute in ("<<<M4097>>>" ++ check (runes_of_ascii "
-root
-packet
-
-    BodyLength
-
-{
-
-}// `tick` ""quote"" 'q'
-
-root 
-	// `tick` ""quote"" 'q'
-packet
-f32a	// c
-  {
-@leftPad
-
-    ( '0'
-    ) 
-//
-    int8  Z9_ ,  }
-
+Eval vm_compute in ("<<<M93>>>" ++ check (runes_of_ascii "MetaData  falsey { i64
+    A // " ++ [27880; 37322]%N ++ runes_of_ascii "
+, string
+Header
+,	zchar[	10 ]
+Foo `" ++ [28040; 24687; 31867; 22411]%N ++ runes_of_ascii "`
+    // @lengthOf(
+    ,packetx
+    body, f32a  MetaDataX `it's`,  }
 ")).
-Eval vm_compute in ("<<<M1252>>>" ++ check (runes_of_ascii "  root packet pack  {
-    /// triple
-    @calculatedFrom(
-""it's"" ) //
-zchar[ 0123456789
-    ] packetx
-@calculatedFrom( ""CRC32"" ) , char[]
-BodyLength , }
-// c
-")).
-Eval vm_compute in ("<<<M1178>>>" ++ check (runes_of_ascii "//x
-options {Header= ' 'string_ = '\x00' ;
-    pack=""a\""b"" ;
-    trueish = 255 }
-options
-// " ++ [27880; 37322]%N ++ runes_of_ascii "
-// @lengthOf(
-{ asx// `tick` ""quote"" 'q'
-= ""`tick`"" ; }
-")).
-Eval vm_compute in ("<<<M10>>>" ++ check (runes_of_ascii "MetaData
-    chars{
-char[]Header `say ""hi""`
-,
-    char[] matchKey
-,char[ 1
-    ]  u8x , zchar A ,x falsey
-,
-zchar[ 42
-    ] calculatedFrom , }
-")).
-Eval vm_compute in ("<<<M1688>>>" ++ check (runes_of_ascii "root packet /// triple
-rootA {	i32
-MetaDataX@calculatedFrom( ""CRC32"" ) `line1
-line2` , } MetaData BodyLength BodyLength {
-u8
-rootA, } // c")).
-Eval vm_compute in ("<<<M719>>>" ++ check (runes_of_ascii "// packet A { u8 x, }
-options { falsey =
-int64 crc
-= i16 // a // b
-;
-}packet options1
-// `tick` ""quote"" 'q'
-//x
-{ // trailing space 
-}")).
-Eval vm_compute in ("<<<M3605>>>" ++ check (runes_of_ascii "packet A {
+Eval vm_compute in ("<<<M1499>>>" ++ check (runes_of_ascii "packet A {
     match k as n {
         [
-            1, 22, ""c c"", 4, 5,
-            ""f"", 7, 8
+            1, ""bb"", 007, ""d"", 5,
+            ""f"", 7, ""h""
         ] : B,
         2 : C,
     },
 }")).
-Eval vm_compute in ("<<<M3681>>>" ++ check (runes_of_ascii "
-packet 
-      // @lengthOf(
-    	roots	{ u32 calculatedFrom
-@calculatedFrom( ""\" ++ [233]%N ++ runes_of_ascii """ // @lengthOf(
-  	)  // `tick` ""quote"" 'q'
-,}
-")).
-Eval vm_compute in ("<<<M1704>>>" ++ check (runes_of_ascii "root packet /// triple
-rootA {	i32
-MetaDataX@calculatedFrom( ""CRC32"" ) `line1
-line2` , } MetaData BodyLength {
-u8
-,rootA } // c")).
-Eval vm_compute in ("<<<M1632>>>" ++ check (runes_of_ascii "root u16 /// triple
-rootA {	i32
-MetaDataX@calculatedFrom( ""CRC32"" ) `line1
-line2` , } MetaData BodyLength {
-u8
-rootA, } // c")).
-Eval vm_compute in ("<<<M1633>>>" ++ check (runes_of_ascii "root packet /// triple
- {	i32
-MetaDataX@calculatedFrom( ""CRC32"" ) `line1
-line2` , } MetaData BodyLength {
-u8
-rootA, } // c")).
-Eval vm_compute in ("<<<M1851>>>" ++ check (runes_of_ascii "packet
-    Pad // a // b
-{ i8i8 @calculatedFrom( ""a	b"") `u8 x,` ,
-} options{ float// " ++ [128512]%N ++ runes_of_ascii " emoji
-= f64 f64 i64_
-=//	t
-00 }
-")).
-Eval vm_compute in ("<<<M1836>>>" ++ check (runes_of_ascii "packet
-    Pad // a // b
-{ i8i8 @calculatedFrom( ""a	b"") `u8 x,` ,
-} options{ { float// " ++ [128512]%N ++ runes_of_ascii " emoji
-= f64 i64_
-=//	t
-00 }
-")).
-Eval vm_compute in ("<<<M4018>>>" ++ check (runes_of_ascii "packet Logon {
-    @tag(42)
-    @rightPad(' ')
-    @leftPad()
-    // c
-    repeat trueish {
-        string T,
-    },
-}")).
-Eval vm_compute in ("<<<M3590>>>" ++ check (runes_of_ascii "options
-{ } packet
-
-    u128 {
-repeat
-uint8x
-
-x`say ""hi""`
-,// trailing space 
-	  }
-    MetaData
-
-    crc	{
-    }")).
-Eval vm_compute in ("<<<M3746>>>" ++ check (runes_of_ascii "MetaData u128 {
-    x_y_z x_y_z `tab	here`,
-    string charz,
-    i64 roots `{ , }`,/// triple
-    Logon packetx,
-}")).
-Eval vm_compute in ("<<<M2978>>>" ++ check (runes_of_ascii "packet A {
-  match k as n {
-    [""a"", ""bb"", ""c c"", ""d"", ""e"", ""f"", ""g"", ""h"", ""i"", ""j"", ""k""] : B,
-    2 : C
-  },
-}")).
-Eval vm_compute in ("<<<M498>>>" ++ check (runes_of_ascii "packet  options1 {
-    _x string_ , string
-    zchar @lengthOf(f32a// packet A { u8 x, }
-)
-, uint64
-x ,
-    }")).
-Eval vm_compute in ("<<<M2987>>>" ++ check (runes_of_ascii "packet A {
-  match k as n {
-    [""a"", ""bb"", 007, ""d"", ""e"", 66, ""g"", ""h"", 9, ""j"", ""k""] : B
-    2 : C
-  },
-}")).
-Eval vm_compute in ("<<<M1100>>>" ++ check (runes_of_ascii "MetaData //
-trueish {_x asx ,
-trueish roots,	falsey
-    asx `" ++ [233]%N ++ runes_of_ascii "`
-    //
-    , rootA	options1
-    ,} 	 ")).
-Eval vm_compute in ("<<<M3363>>>" ++ check (runes_of_ascii "packet calculatedFrom { @tag( 4294967296 ) u msg_type , char[ 3 ] crc // c
-@lengthOf( len ) `u8 x,` , }")).
-Eval vm_compute in ("<<<M3005>>>" ++ check (runes_of_ascii "packet A {
-    Inner {
-        u8 x `a
-b`,
-        Deep {
-            u8 y `a
-b`,
-        },
-    },
-}")).
-Eval vm_compute in ("<<<M575>>>" ++ check (runes_of_ascii "// @lengthOf(
-packet o/// triple
-{string
-pack
-, // packet A { u8 x, }
-trueish `" ++ [233]%N ++ runes_of_ascii "`, } /// triple")).
-Eval vm_compute in ("<<<M586>>>" ++ check (runes_of_ascii "options {charz=//	t
-""" ++ [28040; 24687]%N ++ runes_of_ascii """rootA= '0'//	t
-trueish=  ""// no comment""; }
-options { body
-=
-char[] }
-")).
-Eval vm_compute in ("<<<M3239>>>" ++ check (runes_of_ascii "packet Logon { @tag( 42 ) @rightPad ( ' ' ) @leftPad (
-// c
-) repeat trueish { string T , } , }")).
-Eval vm_compute in ("<<<M1408>>>" ++ check (runes_of_ascii "root packet SimpleMessage {
-    uint16 MsgType `" ++ [28040; 24687; 31867; 22411]%N ++ runes_of_ascii "`,
-    string JsonBody `Json" ++ [23383; 31526; 20018; 28040; 24687; 20307]%N ++ runes_of_ascii "`,
-}")).
-Eval vm_compute in ("<<<M2927>>>" ++ check (runes_of_ascii "packet A {
-  match k as n {
-    [""a"", ""bb"", ""c c"", ""d"", ""e"", ""f"", ""g""] : B
-    2 : C
-  },
-}")).
-Eval vm_compute in ("<<<M2963>>>" ++ check (runes_of_ascii "packet A {
-  match k as n {
-    [1, 22, 007, 4, 5, 66, 7, 8, 9, 10] : B,
-    2 : C
-  },
-}")).
-Eval vm_compute in ("<<<M3171>>>" ++ check (runes_of_ascii "packet A { match k as n // a
- { // b
- 1 // c
- : // d
- B // e
- , // f
- } // g
- , // h
- }")).
-Eval vm_compute in ("<<<M1371>>>" ++ check (runes_of_ascii "
-options { repeatCount =	""CRC32""x =true //x
-u  = ""\" ++ [233]%N ++ runes_of_ascii """
-    ; stringy = //
-'\x00'; }
-")).
-Eval vm_compute in ("<<<M2016>>>" ++ check (runes_of_ascii "root
-packet crc
-    { f32a @calculatedFrom( """ ++ [233]%N ++ runes_of_ascii "t" ++ [233]%N ++ runes_of_ascii """ )
-    `say ""hi""`, lengthOf ``   }")).
-Eval vm_compute in ("<<<M2900>>>" ++ check (runes_of_ascii "packet A {
-  match k as n {
-    [""a"", ""bb"", ""c c"", ""d"", ""e""] : B,
-    2 : C
-  },
-}")).
-Eval vm_compute in ("<<<M3306>>>" ++ check (runes_of_ascii "packet o { @tag( 42 ) repeat // c
-x { char[ 0123456789 ] i64_ , } , } options { }")).
-Eval vm_compute in ("<<<M68>>>" ++ check (runes_of_ascii "options { stringy=""x y""  ;
-chars
-=true Logon = string crc = true Logon
-= char }")).
-Eval vm_compute in ("<<<M4147>>>" ++ check (runes_of_ascii "packet Inner {
-    u8 a,
-}
-
-root packet P {
-    repeat Inner items,
-    u8 x,
-}")).
-Eval vm_compute in ("<<<M1839>>>" ++ check (runes_of_ascii "packet
-    Pad // a // b
-{ i8i8 @calculatedFrom( ""a	b"") `u8 x,` ,
-} options")).
-Eval vm_compute in ("<<<M3424>>>" ++ check (runes_of_ascii "packet Inner {
-    u8 a,
-}
-root packet P {
-    Inner ref_obj,
-    u8 x,
-}
-")).
-Eval vm_compute in ("<<<M263>>>" ++ check (runes_of_ascii "packet zchar
-{
-    roots
-{ i64 f32a
-    `" ++ [28040; 24687; 31867; 22411]%N ++ runes_of_ascii "`	, float32 zchar , }
-, }")).
-Eval vm_compute in ("<<<M3398>>>" ++ check (runes_of_ascii "MetaData _x
-// c
-{ zchar[ 4294967296 ] lengthOf `// not a comment` , }")).
-Eval vm_compute in ("<<<M3738>>>" ++ check (runes_of_ascii "packet A {
-    B b `
-    `,
-    B `
-    `,
-    repeat B bs `
-    `,
-}")).
-Eval vm_compute in ("<<<M2005>>>" ++ check (runes_of_ascii "root
-packet crc
-    { f32a @calculatedFrom( """ ++ [233]%N ++ runes_of_ascii "t" ++ [233]%N ++ runes_of_ascii """ )
-    `say ""hi""`")).
-Eval vm_compute in ("<<<M3027>>>" ++ check (runes_of_ascii "packet A {
-    B b `a
-
-b`,
-    B `a
-
-b`,
-    repeat B bs `a
-
-b`,
-}")).
-Eval vm_compute in ("<<<M3691>>>" ++ check (runes_of_ascii "  //x
-
+Eval vm_compute in ("<<<M1907>>>" ++ check (runes_of_ascii "
 packet
+A
+    { match  k
+as
 
-zchar
-	{@calculatedFrom(""CRC32""  )lengthOf ,
-	}
+    n{
 
-")).
-Eval vm_compute in ("<<<M671>>>" ++ check (runes_of_ascii "options
-    {i64_ = string tag =
-    float32 Pad  = ""{,}"" ; }")).
-Eval vm_compute in ("<<<M1933>>>" ++ check (runes_of_ascii "
-packet	As { @calculatedFrom(//x
-""{,}""	)lengthOf int64 } 	 ")).
-Eval vm_compute in ("<<<M1908>>>" ++ check (runes_of_ascii "
-packet	As f64 @calculatedFrom(//x
-""{,}""	)lengthOf , } 	 ")).
-Eval vm_compute in ("<<<M2421>>>" ++ check (runes_of_ascii "MetaData A
-@leftpad{
-i64
-chars	, } // `tick` ""quote"" 'q'")).
-Eval vm_compute in ("<<<M4360>>>" ++ check (runes_of_ascii "options	{
+    [ 1,  22
+    , ""c c""
+, 4 ,
 
-} 
-options{
-    }  // `tick` ""quote"" " ++ [65279]%N ++ runes_of_ascii "'q'
-")).
-Eval vm_compute in ("<<<M3377>>>" ++ check (runes_of_ascii "// top
-packet // c0
-lengthOf // c1
-{ // c2
-} // c3
-")).
-Eval vm_compute in ("<<<M1809>>>" ++ check (runes_of_ascii "packet
-    Pad // a // b
-{ i8i8 @calculatedFrom(")).
-Eval vm_compute in ("<<<M195>>>" ++ check (runes_of_ascii "root
-packet
-// packet A { u8 x, }
-//	t
-Z9_ {
-}
-")).
-Eval vm_compute in ("<<<M342>>>" ++ check (runes_of_ascii "packet o{ char[0123456789 ] asx `doc`
-    ,	}
-")).
-Eval vm_compute in ("<<<M2737>>>" ++ check (runes_of_ascii "65535 MetaData [ repeat u64 zchar[ false char")).
-Eval vm_compute in ("<<<M1399>>>" ++ check (runes_of_ascii "  packet asx{
-calculatedFrom lengthOf
-,	}
-")).
-Eval vm_compute in ("<<<M404>>>" ++ check (runes_of_ascii "options
-{
-    stringy
-=
-true
-    ;  } //")).
-Eval vm_compute in ("<<<M2112>>>" ++ check (runes_of_ascii "MetaData x
-f64// " ++ [128512]%N ++ runes_of_ascii " emoji
-i16 stringy , }")).
-Eval vm_compute in ("<<<M3415>>>" ++ check (runes_of_ascii "root packet P {
-    char c,
-    u8 x,
-}
-")).
-Eval vm_compute in ("<<<M1752>>>" ++ check (runes_of_ascii "options { } {  } // `tick` ""quote"" 'q'")).
-Eval vm_compute in ("<<<M2124>>>" ++ check (runes_of_ascii "MetaData x
-{// " ++ [128512]%N ++ runes_of_ascii " emoji
-i16 stringy  }")).
-Eval vm_compute in ("<<<M499>>>" ++ check (runes_of_ascii "packet Packet {crc u `two words` ,}")).
-Eval vm_compute in ("<<<M3894>>>" ++ check (runes_of_ascii "// c
-  options
-	{u8x =3
+5
+,""f""
+,
+	7 ,
+
+8	,  ""i"" 
+] : B
+	2:
+
+C
+}	,
 
     }
 ")).
-Eval vm_compute in ("<<<M3148>>>" ++ check (runes_of_ascii "packet A {
- u8 x `d x`, // c x
-}")).
-Eval vm_compute in ("<<<M2101>>>" ++ check (runes_of_ascii " x
-{// " ++ [128512]%N ++ runes_of_ascii " emoji
-i16 stringy , }")).
-Eval vm_compute in ("<<<M1765>>>" ++ check (runes_of_ascii "options { }options {  } // `t")).
-Eval vm_compute in ("<<<M3637>>>" ++ check (runes_of_ascii "
-MetaData
-M
-{
-    x y
-, 
-}")).
-Eval vm_compute in ("<<<M445>>>" ++ check (runes_of_ascii "
-options  { Z9_ =	'\x00'}")).
-Eval vm_compute in ("<<<M2087>>>" ++ check (runes_of_ascii "MetaData A { /u64 pack, }")).
-Eval vm_compute in ("<<<M1192>>>" ++ check (runes_of_ascii "options { Foo= ' ' ;  }
-")).
-Eval vm_compute in ("<<<M3387>>>" ++ check (runes_of_ascii "packet lengthOf {
-// c
-}")).
-Eval vm_compute in ("<<<M413>>>" ++ check (runes_of_ascii "
-packet msg_type {
+Eval vm_compute in ("<<<M1353>>>" ++ check (runes_of_ascii "packet B {
+    u8 a,
+}
+root packet P {
+    u8 K,
+    match K as Body {
+        1 : B,
+    },
+    u16 L @lengthOf(Body),
 }
 ")).
-Eval vm_compute in ("<<<M2572>>>" ++ check (runes_of_ascii "packet A { x y `d`, }")).
-Eval vm_compute in ("<<<M2841>>>" ++ check (runes_of_ascii "29" ++ [5; 6]%N ++ runes_of_ascii "<" ++ [65533]%N ++ runes_of_ascii "F>" ++ [6]%N ++ runes_of_ascii "r " ++ [65533]%N ++ runes_of_ascii "C" ++ [65533; 65533; 0; 65533]%N ++ runes_of_ascii "2N" ++ [65533]%N)).
-Eval vm_compute in ("<<<M4187>>>" ++ check (runes_of_ascii "packet
-	chars
-{ }
-")).
-Eval vm_compute in ("<<<M3077>>>" ++ check (runes_of_ascii "// c" ++ [133]%N ++ runes_of_ascii "
-packet A {
+Eval vm_compute in ("<<<M652>>>" ++ check (runes_of_ascii "MetaData
+    // trailing space 
+    matchKey
+{ u64 chars // a // b
+,char[] lengthOf `// not a comment`
+    , //	t
+" ++ [0]%N ++ runes_of_ascii " }")).
+Eval vm_compute in ("<<<M614>>>" ++ check (runes_of_ascii "MetaData
+    // trailing space 
+    matchKey
+{ u64 chars // a // b
+}char[] lengthOf `// not a comment`
+    , //	t
 }")).
-Eval vm_compute in ("<<<M1148>>>" ++ check (runes_of_ascii "packet f32a
-{ }
+Eval vm_compute in ("<<<M1887>>>" ++ check (runes_of_ascii "packet Pad{ } packet	options1{// trailing space 
+
+}
+
+// @lengthOf(
+
+root  packet crc {  repeat crc  len
+
+    ,
+
+}")).
+Eval vm_compute in ("<<<M924>>>" ++ check (runes_of_ascii "packet A {
+    u16 len @lengthOf(body) `a
+b`,
+    u32 crc @calculatedFrom(""CRC32"") `a
+b`,
+    string body,
+}")).
+Eval vm_compute in ("<<<M954>>>" ++ check (runes_of_ascii "packet A {
+    u16 len @lengthOf(body) `
+x`,
+    u32 crc @calculatedFrom(""CRC32"") `
+x`,
+    string body,
+}")).
+Eval vm_compute in ("<<<M1262>>>" ++ check (runes_of_ascii "packet calculatedFrom { @tag( 4294967296
+// c
+) u msg_type , char[ 3 ] crc @lengthOf( len ) `u8 x,` , }")).
+Eval vm_compute in ("<<<M866>>>" ++ check (runes_of_ascii "packet A {
+  match k as n {
+    [""a"", ""bb"", ""c c"", ""d"", ""e"", ""f"", ""g"", ""h"", ""i""] : B,
+    2 : C
+  },
+}")).
+Eval vm_compute in ("<<<M874>>>" ++ check (runes_of_ascii "packet A {
+  match k as n {
+    [""a"", ""bb"", 007, ""d"", ""e"", 66, ""g"", ""h"", 9] : B,
+    2 : C
+  },
+}")).
+Eval vm_compute in ("<<<M1140>>>" ++ check (runes_of_ascii "packet Logon { @tag( 42 ) // c
+@rightPad ( ' ' ) @leftPad ( ) repeat trueish { string T , } , }")).
+Eval vm_compute in ("<<<M1835>>>" ++ check (runes_of_ascii "packet Pad {
+    @calculatedFrom(""CRC32"")
+    @tag(7)
+    float32 u128 @calculatedFrom(""\n""),
+}")).
+Eval vm_compute in ("<<<M857>>>" ++ check (runes_of_ascii "packet A {
+  match k as n {
+    [""a"", 22, ""c c"", 4, ""e"", 66, ""g"", 8] : B,
+    2 : C
+  },
+}")).
+Eval vm_compute in ("<<<M1181>>>" ++ check (runes_of_ascii "// top
+options
+    // c0
+{
+    // c1
+u8x
+    // c2
+=
+    // c3
+3
+    // c4
+}
+    // c5
+")).
+Eval vm_compute in ("<<<M177>>>" ++ check (runes_of_ascii "MetaData Header
+{ trueish u8x , zchar[ 42 ] Packet
+    , char asx	,// @lengthOf(
+}")).
+Eval vm_compute in ("<<<M1223>>>" ++ check (runes_of_ascii "packet o { @tag( 42 ) repeat x
+// c
+{ char[ 0123456789 ] i64_ , } , } options { }")).
+Eval vm_compute in ("<<<M822>>>" ++ check (runes_of_ascii "packet A {
+  match k as n {
+    [""a"", ""bb"", 007, ""d"", ""e""] : B,
+    2 : C
+  },
+}")).
+Eval vm_compute in ("<<<M1762>>>" ++ check (runes_of_ascii "
+
+  root
+	packet P
+{
+	u16 a	, u32  Sum @calculatedFrom(
+	""CRC32""
+    ), 
+}
 
 ")).
-Eval vm_compute in ("<<<M3134>>>" ++ check (runes_of_ascii "packet A {
-}// c" ++ [65279]%N)).
-Eval vm_compute in ("<<<M2564>>>" ++ check (runes_of_ascii "packet A { u8 }")).
-Eval vm_compute in ("<<<M303>>>" ++ check (runes_of_ascii "options	{
-}
+Eval vm_compute in ("<<<M803>>>" ++ check (runes_of_ascii "packet A {
+  match k as n {
+    [1, ""bb"", 007, ""d""] : B,
+    2 : C
+  },
+}")).
+Eval vm_compute in ("<<<M796>>>" ++ check (runes_of_ascii "packet A {
+  match k as n {
+    [""a"", ""bb"", 007] : B,
+    2 : C
+  },
+}")).
+Eval vm_compute in ("<<<M794>>>" ++ check (runes_of_ascii "packet A {
+  match k as n {
+    [1, 22, ""c c""] : B,
+    2 : C
+  },
+}")).
+Eval vm_compute in ("<<<M754>>>" ++ check (runes_of_ascii "= uint8 ' ' @tag( { zchar[ 00 zchar uint32 int64 u8 : [ stringy")).
+Eval vm_compute in ("<<<M1660>>>" ++ check (runes_of_ascii "MetaData M {
+    u8 x `
+        x`,
+    T t `
+        x`,
+}")).
+Eval vm_compute in ("<<<M1077>>>" ++ check (runes_of_ascii "// a
+MetaData M {} // b
+// c
+MetaData N {} // d
+// e")).
+Eval vm_compute in ("<<<M1867>>>" ++ check (runes_of_ascii "
+root
+packet	A
+{
+u8
+
+    x  `x
+` , 
+} ")).
+Eval vm_compute in ("<<<M1115>>>" ++ check (runes_of_ascii "MetaData zchar { zchar[ 3 ]
+// c
+Pad , }")).
+Eval vm_compute in ("<<<M1782>>>" ++ check (runes_of_ascii "MetaData zchar {
+    zchar[3] Pad,
+}")).
+Eval vm_compute in ("<<<M1852>>>" ++ check (runes_of_ascii "packet A {
+    u8 x `d" ++ [8202]%N ++ runes_of_ascii "`,// c" ++ [8202]%N ++ runes_of_ascii "
+}")).
+Eval vm_compute in ("<<<M1047>>>" ++ check (runes_of_ascii "packet A {
+ u8 x `d" ++ [8203]%N ++ runes_of_ascii "`, // c" ++ [8203]%N ++ runes_of_ascii "
+}")).
+Eval vm_compute in ("<<<M736>>>" ++ check ([25; 65533]%N ++ runes_of_ascii "\" ++ [65533]%N ++ runes_of_ascii "v" ++ [65533]%N ++ runes_of_ascii "
+K" ++ [65533; 65533; 65533]%N ++ runes_of_ascii "Xsz" ++ [65533]%N ++ runes_of_ascii "L" ++ [65533; 65533; 17; 65533; 23]%N ++ runes_of_ascii "<=B?")).
+Eval vm_compute in ("<<<M127>>>" ++ check (runes_of_ascii "packet Foo{/// triple
+}")).
+Eval vm_compute in ("<<<M1061>>>" ++ check (runes_of_ascii "// c x
+packet A {
+}")).
+Eval vm_compute in ("<<<M1036>>>" ++ check (runes_of_ascii "// c" ++ [12]%N ++ runes_of_ascii "
+packet A {
+}")).
+Eval vm_compute in ("<<<M1053>>>" ++ check (runes_of_ascii "packet A {
+}// c" ++ [6158]%N)).
+Eval vm_compute in ("<<<M1856>>>" ++ check (runes_of_ascii "
+// c" ++ [11]%N ++ runes_of_ascii "
 ")).
-Eval vm_compute in ("<<<M2484>>>" ++ check (runes_of_ascii "@lengthOf(")).
-Eval vm_compute in ("<<<M2424>>>" ++ check (runes_of_ascii "char[ ]")).
-Eval vm_compute in ("<<<M2723>>>" ++ check (runes_of_ascii "y)5" ++ [65533; 65533; 65533]%N)).
-Eval vm_compute in ("<<<M2810>>>" ++ check ([14]%N ++ runes_of_ascii "'" ++ [65533]%N ++ runes_of_ascii "s" ++ [65533]%N)).
-Eval vm_compute in ("<<<M2498>>>" ++ check (runes_of_ascii "// x")).
-Eval vm_compute in ("<<<M2522>>>" ++ check (runes_of_ascii "`""`")).
-Eval vm_compute in ("<<<M2528>>>" ++ check (runes_of_ascii "-1")).
-Eval vm_compute in ("<<<M44>>>" ++ check (@nil rune)).
+Eval vm_compute in ("<<<M56>>>" ++ check (runes_of_ascii "
+")).
